@@ -128,6 +128,13 @@ Arguments Err {A} e.
 Notation "x <- e ;; k" := (match e with OK x => k | Err er => Err er end)
   (at level 61, e at next level, right associativity).
 
+Definition map_result {A B : Type} (f : A -> result B) : list A -> result (list B) :=
+  fix go (l : list A) : result (list B) :=
+    match l with
+    | [] => OK []
+    | x :: tl => x' <- f x ;; tl' <- go tl ;; OK (x' :: tl')
+    end.
+
 Definition el_of (t : ty) : dty := match t with TArr el _ => el | TData _ => EMPTY end.
 
 Definition is_arith (c : opclass) : bool :=
@@ -240,11 +247,7 @@ Fixpoint cast (e : texpr) (new : ty) {struct e} : result texpr :=
   | TArrLit vs t locked =>
       match new with
       | TArr el' _ =>
-          vs' <- (fix go (l : list texpr) : result (list texpr) :=
-                    match l with
-                    | [] => OK []
-                    | v :: tl => v' <- cast v (TData el') ;; tl' <- go tl ;; OK (v' :: tl')
-                    end) vs ;;
+          vs' <- map_result (fun v => cast v (TData el')) vs ;;
           OK (TArrLit vs' new true)
       | TData _ => cast_plain e t new
       end
@@ -276,7 +279,7 @@ Record env : Type := mkEnv {
   e_unreach : bool            (* option unreachable_error *)
 }.
 
-Definition is_global (en : env) : bool := (length (e_scopes en) <=? 1)%nat.
+Definition is_global (en : env) : bool := (List.length (e_scopes en) <=? 1)%nat.
 
 Fixpoint scope_find (x : string) (s : scope) : option decl :=
   match s with
@@ -431,12 +434,7 @@ Definition spec_type_ok (t : ty) : bool :=
 Definition lookup_var (en : env) (x : string) : option decl := scopes_find x (e_scopes en).
 
 Fixpoint elab_expr (en : env) (e : expr) {struct e} : result texpr :=
-  let elab_list :=
-    (fix go (es : list expr) : result (list texpr) :=
-       match es with
-       | [] => OK []
-       | x :: tl => x' <- elab_expr en x ;; tl' <- go tl ;; OK (x' :: tl')
-       end) in
+  let elab_list := map_result (elab_expr en) in
   match e with
   | EInt n => OK (TInt n intvalue_shrinkable_default intvalue_is_char_default)
   | EChar n => OK (TByte n intvalue_shrinkable_default true)
@@ -622,18 +620,18 @@ Definition lookup_const (e : texpr) : bool :=
   end.
 
 (** Declaration.evaluate *)
-Definition elab_decl (en : env) (v : var) (init : texpr) : result (tstmt * env) :=
-  if (match lookup_var en (v_name v) with
-      | Some _ => is_global en || found_local (v_name v) (e_scopes en)
-      | None => false
-      end)
-  then Err (ERedeclaration (v_name v))
-  else
-    i <- coerce init (v_type v) ;;
-    match i with
-    | TVolatile _ => Err (EConstVolatileDecl (v_name v))
-    | _ => OK (TSDecl v i, add_decl en (mkDecl v i))
-    end.
+Definition redeclared (en : env) (x : string) : bool :=
+  match lookup_var en x with
+  | Some _ => is_global en || found_local x (e_scopes en)
+  | None => false
+  end.
+
+Definition finish_decl (en : env) (v : var) (init : texpr) : result (tstmt * env) :=
+  i <- coerce init (v_type v) ;;
+  match i with
+  | TVolatile _ => Err (EConstVolatileDecl (v_name v))
+  | _ => OK (TSDecl v i, add_decl en (mkDecl v i))
+  end.
 
 (** Assignment.evaluate *)
 Definition elab_assign (en : env) (lhs : expr) (rhs : expr) (mk : expr -> expr)
@@ -653,34 +651,38 @@ Definition call_mode (f : ident) (args : list texpr) (m : emode) : emode :=
   else if flavor_eqb (id_flavor f) FL_DEFEAT then m_or m M_DEFEAT
   else m.
 
+(** the loop of CodeBlock.evaluate *)
+Definition stmt_mode (t1 : tstmt) (mode : emode) : emode :=
+  match t1 with
+  | TSReturn _ => m_replace mode M_NONE M_RETURN
+  | TSBreak => m_replace mode M_NONE M_BREAK
+  | TSExpr (TCall f args _) => call_mode f args mode
+  | _ => match exit_modes t1 with
+         | Some bm => m_replace mode M_NONE bm
+         | None => mode
+         end
+  end.
+
+Definition elab_block (elab : env -> stmt -> result (tstmt * env)) (unreach : bool)
+  : list stmt -> env -> emode -> bool -> result (list tstmt * emode) :=
+  fix go (ss : list stmt) (en' : env) (mode : emode) (cont : bool) : result (list tstmt * emode) :=
+    match ss with
+    | [] => OK ([], mode)
+    | s1 :: tl =>
+        if negb (m_none mode) || cont then
+          (if unreach then Err EUnreachable else OK ([], mode))
+        else
+          r <- elab en' s1 ;;
+          rest <- go tl (snd r) (stmt_mode (fst r) mode)
+                    (match fst r with TSContinue => true | _ => cont end) ;;
+          OK (fst r :: fst rest, snd rest)
+    end.
+
 Fixpoint elab_stmt (en : env) (s : stmt) {struct s} : result (tstmt * env) :=
-  let elab_block :=
-    (fix go (ss : list stmt) (en' : env) (mode : emode) (cont : bool)
-       : result (list tstmt * emode) :=
-       match ss with
-       | [] => OK ([], mode)
-       | s1 :: tl =>
-           if negb (m_none mode) || cont then
-             (if e_unreach en then Err EUnreachable else OK ([], mode))
-           else
-             r <- elab_stmt en' s1 ;;
-             let (t1, en'') := r in
-             let mode' :=
-               match t1 with
-               | TSReturn _ => m_replace mode M_NONE M_RETURN
-               | TSBreak => m_replace mode M_NONE M_BREAK
-               | TSExpr (TCall f args _) => call_mode f args mode
-               | _ => match exit_modes t1 with
-                      | Some bm => m_replace mode M_NONE bm
-                      | None => mode
-                      end
-               end in
-             let cont' := match t1 with TSContinue => true | _ => cont end in
-             rest <- go tl en'' mode' cont' ;;
-             OK (t1 :: fst rest, snd rest)
-       end) in
   match s with
-  | SDecl v init => i <- elab_expr en init ;; elab_decl_pre en v i
+  | SDecl v init =>
+      if redeclared en (v_name v) then Err (ERedeclaration (v_name v)) else
+      i <- elab_expr en init ;; finish_decl en v i
   | SAssign lhs rhs =>
       p <- elab_assign en lhs rhs (fun r => r) ;;
       OK (TSAssign (fst p) (snd p), en)
@@ -704,7 +706,7 @@ Fixpoint elab_stmt (en : env) (s : stmt) {struct s} : result (tstmt * env) :=
   | SContinue => OK (TSContinue, en)
   | SExpr e => e' <- elab_expr en e ;; OK (TSExpr e', en)
   | SBlock ss =>
-      r <- elab_block ss (push_scope en) M_NONE false ;;
+      r <- elab_block elab_stmt (e_unreach en) ss (push_scope en) M_NONE false ;;
       OK (TSBlock (fst r) (snd r), en)
   | SIf cond body els =>
       b <- elab_stmt en body ;;
@@ -724,3 +726,2046 @@ Fixpoint elab_stmt (en : env) (s : stmt) {struct s} : result (tstmt * env) :=
       b <- elab_stmt en body ;;
       OK (TSPreempt (fst b), en)
   end.
+
+(** FuncDeclaration *)
+Record fdecl : Type := mkFdecl {
+  fd_ret : dty; fd_name : ident; fd_params : list var; fd_body : list stmt }.
+
+Record tfdecl : Type := mkTfdecl {
+  tf_ret : dty; tf_name : ident; tf_params : list var; tf_body : tstmt }.
+
+Record program : Type := mkProgram { p_vars : list stmt; p_funcs : list fdecl }.
+Record tprogram : Type := mkTprogram { tp_vars : list tstmt; tp_funcs : list tfdecl }.
+
+Definition sig_of (f : fdecl) : fsig :=
+  mkSig (fd_name f) (map v_type (fd_params f)) (fd_ret f).
+
+Definition builtin_fsigs : list fsig :=
+  map (fun b => match b with (n, fl, ps, r) => mkSig (mkId n fl) ps r end) builtin_sigs.
+
+(** Environment.add_funcs *)
+Fixpoint add_funcs (table : list fsig) (fs : list fsig) : result (list fsig) :=
+  match fs with
+  | [] => OK table
+  | f :: tl =>
+      if existsb (exact_sig (f_id f) (f_params f)) table
+      then Err (ERedefinition (f_id f) (f_params f))
+      else add_funcs (table ++ [f]) tl
+  end.
+
+Fixpoint bind_params (en : env) (ps : list var) : result env :=
+  match ps with
+  | [] => OK en
+  | p :: tl =>
+      if redeclared en (v_name p) then Err (ERedeclaration (v_name p)) else
+      r <- finish_decl en p (TParam p) ;;
+      bind_params (snd r) tl
+  end.
+
+Definition elab_func (en : env) (f : fdecl) : result tfdecl :=
+  en1 <- bind_params (child_env en (Some (fd_ret f))) (fd_params f) ;;
+  r <- elab_stmt en1 (SBlock (fd_body f)) ;;
+  match fst r with
+  | TSBlock ss m =>
+      if m_break m then Err (ECrash "assert BREAK not in exit_modes") else
+      if m_defeat m && negb (flavor_eqb (id_flavor (fd_name f)) FL_DEFEAT)
+      then Err (ECrash "assert DEFEAT only in defeat functions") else
+      if m_none m then
+        if negb (dty_beq (fd_ret f) EMPTY) then Err EMissingReturnStatement
+        else OK (mkTfdecl (fd_ret f) (fd_name f) (fd_params f)
+                   (TSBlock (ss ++ [TSReturn None]) (m_replace m M_NONE M_RETURN)))
+      else OK (mkTfdecl (fd_ret f) (fd_name f) (fd_params f) (TSBlock ss m))
+  | _ => Err (ECrash "function body")
+  end.
+
+Fixpoint elab_globals (en : env) (ds : list stmt) : result (list tstmt * env) :=
+  match ds with
+  | [] => OK ([], en)
+  | d :: tl =>
+      r <- elab_stmt en d ;;
+      rest <- elab_globals (snd r) tl ;;
+      OK (fst r :: fst rest, snd rest)
+  end.
+
+Fixpoint elab_funcs (en : env) (fs : list fdecl) : result (list tfdecl) :=
+  match fs with
+  | [] => OK []
+  | f :: tl => f' <- elab_func en f ;; tl' <- elab_funcs en tl ;; OK (f' :: tl')
+  end.
+
+(** Program.evaluate on Environment.empty with the given options *)
+Definition elab_program (unreach : bool) (p : program) : result tprogram :=
+  t1 <- add_funcs [] builtin_fsigs ;;
+  t2 <- add_funcs t1 (map sig_of (p_funcs p)) ;;
+  let en := mkEnv [[]] t2 None unreach in
+  g <- elab_globals en (p_vars p) ;;
+  fs <- elab_funcs (snd g) (p_funcs p) ;;
+  OK (mkTprogram (fst g) fs).
+
+(* ========================================================================================== *)
+(** * PROOFS *)
+Local Open Scope list_scope.
+(* ========================================================================================== *)
+
+Lemma forall_types : forall P : ty -> bool,
+  forallb P all_types = true -> forall t, P t = true.
+Proof.
+  intros P H t. rewrite forallb_forall in H. apply H. apply all_types_complete.
+Qed.
+
+Lemma forall_types2 : forall P : ty -> ty -> bool,
+  forallb (fun a => forallb (P a) all_types) all_types = true -> forall a b, P a b = true.
+Proof.
+  intros P H a b. apply (forall_types (P a)). apply (forall_types _ H a).
+Qed.
+
+Lemma flavor_eqb_eq : forall a b, flavor_eqb a b = true <-> a = b.
+Proof. intros [] []; simpl; split; intros H; try reflexivity; try discriminate. Qed.
+
+Lemma ident_eqb_eq : forall a b, ident_eqb a b = true <-> a = b.
+Proof.
+  intros [n1 f1] [n2 f2]. unfold ident_eqb. simpl. split.
+  - intros H. apply andb_prop in H as [H1 H2].
+    apply String.eqb_eq in H1. apply flavor_eqb_eq in H2. now subst.
+  - intros H. inversion H. subst. rewrite String.eqb_refl.
+    now rewrite (proj2 (flavor_eqb_eq f2 f2) eq_refl).
+Qed.
+
+Lemma tys_eqb_eq : forall a b, tys_eqb a b = true <-> a = b.
+Proof.
+  induction a as [|x a IH]; intros [|y b]; simpl; split; intros H; try reflexivity; try discriminate.
+  - apply andb_prop in H as [H1 H2]. apply ty_eqb_eq in H1. apply IH in H2. now subst.
+  - inversion H. subst. rewrite ty_eqb_refl. simpl. now apply IH.
+Qed.
+
+(* ------------------------------------------------------------------------------------------ *)
+(** ** C07-1: the coercion lattice *)
+
+(** The documented implicit coercions between types (README "Types", "Arrays and strings"). *)
+Definition doc_coercible_ty (a b : ty) : bool :=
+  match a, b with
+  | TData BYTE, TData INT => true                 (* byte: "Coercible to int" *)
+  | TData STRING, TArr BYTE true => true          (* string: "Coercible to const byte[]" *)
+  | TArr x false, TArr y true => dty_beq x y      (* "a non-const array may be coerced into a const array" *)
+  | _, _ => ty_eqb a b
+  end.
+
+(** The documented explicit casts (README "Allowed explicit type casts"), plus the identity and
+    the const view of a mutable array (`x is T[]`, documented only in a source comment). *)
+Definition doc_cast_ty (a b : ty) : bool :=
+  ty_eqb a b ||
+  match a, b with
+  | TData BYTE, TData INT | TData BOOL, TData INT => true
+  | TData INT, TData BYTE | TData BOOL, TData BYTE => true
+  | TData INT, TData BOOL | TData BYTE, TData BOOL | TData STRING, TData BOOL => true
+  | TArr _ _, TData BOOL => true
+  | TData STRING, TArr BYTE true => true
+  | TArr x false, TArr y true => dty_beq x y
+  | _, _ => false
+  end.
+
+(** node classes that inherit Expression.coercible / Expression.cast unchanged *)
+Definition is_plain (e : texpr) : bool :=
+  match e with
+  | TVar _ | TParam _ | TIndex _ _ | TLen _ | TCall _ _ _ | TCast _ _ | TSpec _ _ | TArrInit _ _ => true
+  | TUn c _ _ | TBin c _ _ _ => negb (is_arith c)
+  | _ => false
+  end.
+
+Definition is_ok {A} (r : result A) : bool := match r with OK _ => true | Err _ => false end.
+
+Definition rep_plain (t : ty) : texpr := TParam (mkVar "p" t true).
+
+Theorem lattice_plain : forall a b, coercible_plain a b = doc_coercible_ty a b.
+Proof.
+  intros a b.
+  apply (proj1 (Bool.eqb_true_iff _ _)).
+  apply (forall_types2 (fun a b => Bool.eqb (coercible_plain a b) (doc_coercible_ty a b))).
+  vm_compute. reflexivity.
+Qed.
+
+Lemma coercible_of_plain : forall e t, is_plain e = true -> coercible e t = coercible_plain (ty_of e) t.
+Proof.
+  intros e t H. destruct e; simpl in H; try discriminate; try reflexivity.
+  - simpl. apply negb_true_iff in H. rewrite H. simpl. now rewrite orb_false_r.
+  - simpl. apply negb_true_iff in H. rewrite H. simpl. now rewrite orb_false_r.
+Qed.
+
+Lemma cast_of_plain : forall e t, is_plain e = true -> cast e t = cast_plain e (ty_of e) t.
+Proof. intros e t H. destruct e; simpl in H; try discriminate; reflexivity. Qed.
+
+Theorem cast_table_plain : forall a b,
+  is_ok (cast_plain (rep_plain a) a b) = doc_cast_ty a b.
+Proof.
+  intros a b.
+  apply (proj1 (Bool.eqb_true_iff _ _)).
+  apply (forall_types2 (fun a b => Bool.eqb (is_ok (cast_plain (rep_plain a) a b)) (doc_cast_ty a b))).
+  vm_compute. reflexivity.
+Qed.
+
+(** cast_plain's success does not depend on the node, only on the two types *)
+Lemma cast_plain_ok_indep : forall e1 e2 a b,
+  is_ok (cast_plain e1 a b) = is_ok (cast_plain e2 a b).
+Proof.
+  intros. unfold cast_plain, cast_plain0, cast_tail.
+  repeat match goal with
+         | |- context [if ?c then _ else _] => destruct c; simpl; try reflexivity
+         | |- context [match ?x with _ => _ end] => destruct x; simpl; try reflexivity
+         end.
+Qed.
+
+Theorem is_table_plain : forall e b, is_plain e = true ->
+  is_ok (cast e b) = doc_cast_ty (ty_of e) b.
+Proof.
+  intros e b H. rewrite cast_of_plain by assumption.
+  rewrite (cast_plain_ok_indep e (rep_plain (ty_of e))). apply cast_table_plain.
+Qed.
+
+(** int / byte literals *)
+Theorem lattice_intlit : forall d s c t,
+  coercible (TInt d s c) t = doc_coercible_ty (TData INT) t || (s && ty_eqb t (TData BYTE)).
+Proof. intros. simpl. now rewrite lattice_plain. Qed.
+
+Theorem lattice_bytelit : forall d s c t,
+  coercible (TByte d s c) t = doc_coercible_ty (TData BYTE) t || (s && ty_eqb t (TData BYTE)).
+Proof. intros. simpl. now rewrite lattice_plain. Qed.
+
+(** array literals: "coercible to any type all entries can be coerced to ... Preferentially
+    const, but may be coerced to non-const"; a type-locked literal only changes constness *)
+Theorem lattice_arrlit : forall vs t new,
+  coercible (TArrLit vs t false) new =
+  match new with
+  | TArr el _ => forallb (fun v => coercible v (TData el)) vs
+  | TData _ => false
+  end.
+Proof. intros. destruct new; reflexivity. Qed.
+
+Theorem lattice_arrlit_locked : forall vs el c new,
+  coercible (TArrLit vs (TArr el c) true) new =
+  match new with TArr el' _ => dty_beq el el' | TData _ => false end.
+Proof. intros. destruct new; reflexivity. Qed.
+
+Theorem lattice_volatile : forall x new, coercible (TVolatile x) new = coercible x new.
+Proof. reflexivity. Qed.
+
+Theorem lattice_arith : forall c l r s t, is_arith c = true ->
+  coercible (TBin c l r s) t = doc_coercible_ty (TData INT) t || (s && ty_eqb t (TData BYTE)).
+Proof. intros. simpl. rewrite H. simpl. now rewrite lattice_plain. Qed.
+
+(** The finite table: 15 types x the expression classes *)
+Inductive eclass : Type :=
+| CPlain (t : ty)                 (* variable, call, lookup, cast node ... of type t *)
+| CIntLit (shr : bool)            (* int literal / folded constant *)
+| CByteLit (shr : bool)
+| CArrLit (el : dty)              (* unlocked literal with one plain element of type el *)
+| CArrLitEmpty                    (* [] *)
+| CArrLitLocked (el : dty) (c : bool)
+| CVolatile (el : dty).           (* `x is T[]` for a mutable x *)
+
+Definition rep (c : eclass) : texpr :=
+  match c with
+  | CPlain t => rep_plain t
+  | CIntLit s => TInt 0 s false
+  | CByteLit s => TByte 0 s false
+  | CArrLit el => TArrLit [rep_plain (TData el)] (TArr el true) false
+  | CArrLitEmpty => TArrLit [] (TArr EMPTY true) false
+  | CArrLitLocked el c => TArrLit [rep_plain (TData el)] (TArr el c) true
+  | CVolatile el => TVolatile (rep_plain (TArr el false))
+  end.
+
+Definition all_classes : list eclass :=
+  map CPlain all_types ++ [CIntLit true; CIntLit false; CByteLit true; CByteLit false]
+  ++ map CArrLit dty_all ++ [CArrLitEmpty]
+  ++ map (fun d => CArrLitLocked d false) dty_all ++ map (fun d => CArrLitLocked d true) dty_all
+  ++ map CVolatile dty_all.
+
+Lemma all_classes_complete : forall c, In c all_classes.
+Proof.
+  intros [t | [] | [] | [] | | [] [] | []]; try (vm_compute; tauto).
+  unfold all_classes. apply in_or_app. left. apply in_map. apply all_types_complete.
+Qed.
+
+(** the documented rule, per class *)
+Definition doc_coercible (c : eclass) (new : ty) : bool :=
+  match c with
+  | CPlain t => doc_coercible_ty t new
+  | CIntLit s => doc_coercible_ty (TData INT) new || (s && ty_eqb new (TData BYTE))
+  | CByteLit _ => doc_coercible_ty (TData BYTE) new
+  | CArrLit el => match new with TArr el' _ => doc_coercible_ty (TData el) (TData el') | _ => false end
+  | CArrLitEmpty => is_array new
+  | CArrLitLocked el _ => match new with TArr el' _ => dty_beq el el' | _ => false end
+  | CVolatile el => match new with TArr el' _ => dty_beq el el' | _ => false end
+  end.
+
+Lemma forall_classes_types : forall P : eclass -> ty -> bool,
+  forallb (fun c => forallb (P c) all_types) all_classes = true -> forall c t, P c t = true.
+Proof.
+  intros P H c t. rewrite forallb_forall in H. apply (forall_types (P c)). apply H.
+  apply all_classes_complete.
+Qed.
+
+Theorem lattice_table : forall c t, coercible (rep c) t = doc_coercible c t.
+Proof.
+  intros c t. apply (proj1 (Bool.eqb_true_iff _ _)).
+  apply (forall_classes_types (fun c t => Bool.eqb (coercible (rep c) t) (doc_coercible c t))).
+  vm_compute. reflexivity.
+Qed.
+
+Theorem lattice_reflexive : forall c, coercible (rep c) (ty_of (rep c)) = true.
+Proof.
+  intros c. pose proof (all_classes_complete c) as H. revert c H.
+  apply (proj1 (forallb_forall (fun c => coercible (rep c) (ty_of (rep c))) all_classes)).
+  vm_compute. reflexivity.
+Qed.
+
+Theorem lattice_cast_defined : forall c t, coercible (rep c) t = true -> exists e', cast (rep c) t = OK e'.
+Proof.
+  intros c t H.
+  assert (implb (coercible (rep c) t) (is_ok (cast (rep c) t)) = true) as I.
+  { apply (forall_classes_types (fun c t => implb (coercible (rep c) t) (is_ok (cast (rep c) t)))).
+    vm_compute. reflexivity. }
+  rewrite H in I. simpl in I. destruct (cast (rep c) t); [eauto | discriminate].
+Qed.
+
+Theorem lattice_coerce_defined : forall c t, coercible (rep c) t = true -> exists e', coerce (rep c) t = OK e'.
+Proof.
+  intros c t H.
+  assert (implb (coercible (rep c) t) (is_ok (coerce (rep c) t)) = true) as I.
+  { apply (forall_classes_types (fun c t => implb (coercible (rep c) t) (is_ok (coerce (rep c) t)))).
+    vm_compute. reflexivity. }
+  rewrite H in I. simpl in I. destruct (coerce (rep c) t); [eauto | discriminate].
+Qed.
+
+(** Readable consequences. *)
+Definition is_scalar (t : ty) : bool := match t with TData _ => true | _ => false end.
+
+Theorem only_scalar_coercions : forall c a b,
+  ty_of (rep c) = TData a -> coercible (rep c) (TData b) = true ->
+  a = b \/ (a = BYTE /\ b = INT) \/ (c = CIntLit true /\ b = BYTE).
+Proof.
+  intros c a b Ht Hc. rewrite lattice_table in Hc.
+  destruct c as [t | s | s | el | | el k | el]; simpl in Ht; try discriminate.
+  - subst t. destruct a, b; simpl in Hc; try discriminate; auto.
+  - inversion Ht; subst a. destruct s, b; simpl in Hc; try discriminate; auto.
+  - inversion Ht; subst a. destruct b; simpl in Hc; try discriminate; auto.
+Qed.
+
+Theorem scalar_to_array_only_string : forall c a el k,
+  ty_of (rep c) = TData a -> coercible (rep c) (TArr el k) = true ->
+  a = STRING /\ el = BYTE /\ k = true.
+Proof.
+  intros c a el k Ht Hc. rewrite lattice_table in Hc.
+  destruct c as [t | s | s | el' | | el' k' | el']; simpl in Ht; try discriminate;
+    [ subst t; destruct a, el, k; simpl in Hc; try discriminate; auto | .. ];
+    try destruct s; destruct el, k; simpl in Hc; discriminate.
+Qed.
+
+Theorem array_never_to_scalar : forall c el k b,
+  ty_of (rep c) = TArr el k -> coercible (rep c) (TData b) = false.
+Proof.
+  intros c el k b Ht. rewrite lattice_table.
+  destruct c as [t | s | s | el' | | el' k' | el']; simpl in Ht; try discriminate; try reflexivity.
+  subst t. destruct k; reflexivity.
+Qed.
+
+Theorem never_const_to_mutable : forall x y, coercible_plain (TArr x true) (TArr y false) = false.
+Proof. intros. rewrite lattice_plain. destruct x, y; reflexivity. Qed.
+
+Theorem mutable_to_const_same_element : forall x y k,
+  coercible_plain (TArr x false) (TArr y k) = dty_beq x y.
+Proof. intros. rewrite lattice_plain. destruct x, y, k; reflexivity. Qed.
+
+Theorem never_from_empty : forall b, coercible_plain (TData EMPTY) b = true -> b = TData EMPTY.
+Proof. intros b H. rewrite lattice_plain in H. destruct b as [[]|[] []]; simpl in H; try discriminate; reflexivity. Qed.
+
+Theorem never_to_empty : forall c, coercible (rep c) (TData EMPTY) = true -> c = CPlain (TData EMPTY).
+Proof.
+  intros c H. rewrite lattice_table in H.
+  destruct c as [t | s | s | el | | el k | el]; simpl in H; try discriminate.
+  - destruct t as [[]|[] []]; simpl in H; try discriminate; reflexivity.
+  - destruct s; discriminate.
+Qed.
+
+(* ------------------------------------------------------------------------------------------ *)
+(** ** C07-2: overload resolution *)
+
+Lemma exact_sig_spec : forall f tys s,
+  exact_sig f tys s = true <-> f_id s = f /\ f_params s = tys.
+Proof.
+  intros f tys s. unfold exact_sig. rewrite andb_true_iff, ident_eqb_eq, tys_eqb_eq.
+  split; intros [A B]; split; congruence.
+Qed.
+
+Lemma all_coercible_spec : forall args ps,
+  all_coercible args ps = true <-> Forall2 (fun a p => coercible a p = true) args ps.
+Proof.
+  induction args as [|a args IH]; intros [|p ps]; simpl; split; intros H;
+    try discriminate; try constructor; try (inversion H; fail).
+  - apply andb_prop in H. tauto.
+  - apply IH. apply andb_prop in H. tauto.
+  - inversion H; subst. rewrite H3. simpl. now apply IH.
+Qed.
+
+Lemma Forall2_len : forall {A B} (R : A -> B -> Prop) l1 l2,
+  Forall2 R l1 l2 -> List.length l1 = List.length l2.
+Proof. induction 1; simpl; congruence. Qed.
+
+(** "equal arity and every argument coercible to the corresponding parameter" *)
+Lemma coercible_sig_spec : forall f args s,
+  coercible_sig f args s = true <->
+  f_id s = f /\ List.length (f_params s) = List.length args /\
+  Forall2 (fun a p => coercible a p = true) args (f_params s).
+Proof.
+  intros f args s. unfold coercible_sig. rewrite andb_true_iff, ident_eqb_eq, all_coercible_spec.
+  split.
+  - intros [A B]. split; [congruence|]. split; [|assumption].
+    symmetry. eapply Forall2_len; eauto.
+  - intros [A [_ B]]. split; [congruence | assumption].
+Qed.
+
+Lemma find_first : forall {A} (P : A -> bool) pre s post,
+  P s = true -> (forall x, In x pre -> P x = false) -> find P (pre ++ s :: post) = Some s.
+Proof.
+  intros A P pre. induction pre as [|y pre IH]; intros s post Hs Hpre; simpl.
+  - now rewrite Hs.
+  - rewrite (Hpre y) by (simpl; auto). apply IH; [assumption|]. intros x Hx. apply Hpre. simpl; auto.
+Qed.
+
+Lemma find_none_iff : forall {A} (P : A -> bool) l,
+  find P l = None <-> (forall x, In x l -> P x = false).
+Proof.
+  intros A P l. split.
+  - apply find_none.
+  - induction l as [|y l IH]; intros H; simpl; [reflexivity|].
+    rewrite (H y) by (simpl; auto). apply IH. intros x Hx. apply H. simpl; auto.
+Qed.
+
+Lemma find_split : forall {A} (P : A -> bool) l s,
+  find P l = Some s -> exists pre post, l = pre ++ s :: post /\ P s = true /\
+                                        (forall x, In x pre -> P x = false).
+Proof.
+  intros A P l. induction l as [|y l IH]; intros s H; simpl in H; [discriminate|].
+  destruct (P y) eqn:E.
+  - inversion H; subst. exists [], l. simpl. repeat split; auto. intros x [].
+  - destruct (IH s H) as (pre & post & -> & Hs & Hpre).
+    exists (y :: pre), post. repeat split; auto.
+    intros x [<-|Hx]; auto.
+Qed.
+
+Definition overload_spec_stmt : Prop :=
+  forall (decls : list fsig) (f : ident) (args : list texpr),
+    let tys := map ty_of args in
+    (* 1. an exact match wins (the first one, were there several) *)
+    (forall pre s post,
+        decls = pre ++ s :: post -> exact_sig f tys s = true ->
+        (forall x, In x pre -> exact_sig f tys x = false) ->
+        resolve decls f args = OK s) /\
+    (* 2. otherwise the first declared signature every argument can be coerced to *)
+    ((forall x, In x decls -> exact_sig f tys x = false) ->
+     forall pre s post,
+        decls = pre ++ s :: post -> coercible_sig f args s = true ->
+        (forall x, In x pre -> coercible_sig f args x = false) ->
+        resolve decls f args = OK s) /\
+    (* 3. otherwise a compile error *)
+    ((forall x, In x decls -> exact_sig f tys x = false) ->
+     (forall x, In x decls -> coercible_sig f args x = false) ->
+     resolve decls f args = Err (ENoMatchingFunction f tys)) /\
+    (* 4. and nothing else: whatever resolve returns is one of the two *)
+    (forall s, resolve decls f args = OK s ->
+        In s decls /\
+        (exact_sig f tys s = true \/
+         ((forall x, In x decls -> exact_sig f tys x = false) /\ coercible_sig f args s = true))).
+
+Theorem overload_spec : overload_spec_stmt.
+Proof.
+  intros decls f args tys. unfold resolve. fold tys. repeat split.
+  - intros pre s post -> Hs Hpre. now rewrite (find_first _ pre s post Hs Hpre).
+  - intros Hno pre s post -> Hs Hpre.
+    rewrite (proj2 (find_none_iff _ _) Hno). now rewrite (find_first _ pre s post Hs Hpre).
+  - intros Hno Hnc.
+    rewrite (proj2 (find_none_iff _ _) Hno). now rewrite (proj2 (find_none_iff _ _) Hnc).
+  - destruct (find (exact_sig f tys) decls) eqn:E.
+    + inversion H; subst. apply find_some in E. tauto.
+    + destruct (find (coercible_sig f args) decls) eqn:E2; [|discriminate].
+      inversion H; subst. apply find_some in E2. tauto.
+  - destruct (find (exact_sig f tys) decls) eqn:E.
+    + inversion H; subst. apply find_some in E. tauto.
+    + destruct (find (coercible_sig f args) decls) eqn:E2; [|discriminate].
+      inversion H; subst. apply find_some in E2. right. split; [|tauto].
+      now apply find_none_iff.
+Qed.
+
+(** an exact match is preferred over any earlier declared coercible signature *)
+Theorem resolve_exact_first : forall decls f args s,
+  In s decls -> exact_sig f (map ty_of args) s = true ->
+  exists s', resolve decls f args = OK s' /\ f_id s' = f /\ f_params s' = map ty_of args.
+Proof.
+  intros decls f args s Hin Hs. unfold resolve.
+  destruct (find (exact_sig f (map ty_of args)) decls) eqn:E.
+  - exists f0. split; [reflexivity|]. apply find_some in E. now apply exact_sig_spec.
+  - exfalso. rewrite (find_none _ _ E s Hin) in Hs. discriminate.
+Qed.
+
+(* ------------------------------------------------------------------------------------------ *)
+(** ** C07-4 and the narrowing rule *)
+
+Definition shrinkable_node (e : texpr) : bool :=
+  match e with
+  | TInt _ s _ => s
+  | TUn c _ s | TBin c _ _ s => is_arith c && s
+  | _ => false
+  end.
+
+(** An int-typed expression is implicitly narrowed to byte only if it is a literal (or folded
+    constant) still marked shrinkable, or an arithmetic node marked shrinkable. *)
+Theorem no_implicit_narrowing : forall e,
+  ty_of e = TData INT -> coercible e (TData BYTE) = true -> shrinkable_node e = true.
+Proof.
+  intros e Ht Hc.
+  destruct e; simpl in *; try (rewrite Ht in Hc; vm_compute in Hc; discriminate).
+  - (* TInt *) destruct shr; [reflexivity|]. vm_compute in Hc. discriminate.
+  - (* TByte *) vm_compute in Ht. discriminate.
+  - (* TArrLit *) discriminate.
+  - (* TVolatile *) discriminate.
+  - (* TUn *) destruct (is_arith c); simpl in *.
+    + destruct shr; [reflexivity|]. vm_compute in Hc. discriminate.
+    + discriminate.
+  - (* TBin *) destruct (is_arith c); simpl in *.
+    + destruct shr; [reflexivity|]. vm_compute in Hc. discriminate.
+    + discriminate.
+Qed.
+
+Theorem coerce_narrowing_only_shrinkable : forall e e',
+  ty_of e = TData INT -> coerce e (TData BYTE) = OK e' -> shrinkable_node e = true.
+Proof.
+  intros e e' Ht H. unfold coerce in H.
+  destruct (coercible e (TData BYTE)) eqn:E; [|discriminate].
+  now apply no_implicit_narrowing.
+Qed.
+
+Lemma simplify_arith2_coercible : forall c l r s te, is_arith c = true ->
+  simplify_arith2 c l r s = OK te -> coercible te (TData BYTE) = s.
+Proof.
+  intros c l r s te Hc H. unfold simplify_arith2 in H.
+  destruct l; try (inversion H; subst; simpl; rewrite Hc; destruct s; reflexivity).
+  destruct r; try (inversion H; subst; simpl; rewrite Hc; destruct s; reflexivity).
+  destruct (lift_fold (fold_arith2 c d d0)); inversion H; subst. simpl. destruct s; reflexivity.
+Qed.
+
+Lemma simplify_arith1_coercible : forall c a s te, is_arith c = true ->
+  simplify_arith1 c a s = OK te -> coercible te (TData BYTE) = s.
+Proof.
+  intros c a s te Hc H. unfold simplify_arith1 in H.
+  destruct a; try (inversion H; subst; simpl; rewrite Hc; destruct s; reflexivity).
+  destruct (lift_fold (fold_arith1 c d)); inversion H; subst. simpl. destruct s; reflexivity.
+Qed.
+
+(** "if all of the operands are coercible to byte, the resulting value is also coercible to
+    byte" -- and only then *)
+Theorem arith_shrinkable : forall en c l r te,
+  op_family c = FamBinArith -> elab_expr en (EBin c l r) = OK te ->
+  exists l' r', elab_expr en l = OK l' /\ elab_expr en r = OK r' /\
+    coercible te (TData BYTE) = coercible l' (TData BYTE) && coercible r' (TData BYTE).
+Proof.
+  intros en c l r te Hf H. simpl in H. rewrite Hf in H.
+  destruct (elab_expr en l) as [l'|]; [|discriminate].
+  destruct (elab_expr en r) as [r'|]; [|discriminate].
+  destruct (coerce l' (TData INT)) as [cl|]; [|discriminate].
+  destruct (coerce r' (TData INT)) as [cr|]; [|discriminate].
+  exists l', r'. split; [reflexivity|]. split; [reflexivity|].
+  apply simplify_arith2_coercible in H; [exact H|]. unfold is_arith. now rewrite Hf.
+Qed.
+
+Theorem arith_shrinkable_unary : forall en c a te,
+  op_family c = FamUnArith -> elab_expr en (EUn c a) = OK te ->
+  exists a', elab_expr en a = OK a' /\ coercible te (TData BYTE) = coercible a' (TData BYTE).
+Proof.
+  intros en c a te Hf H. simpl in H. rewrite Hf in H.
+  destruct (elab_expr en a) as [a'|]; [|discriminate].
+  destruct (coerce a' (TData INT)) as [ca|]; [|discriminate].
+  exists a'. split; [reflexivity|].
+  apply simplify_arith1_coercible in H; [exact H|]. unfold is_arith. now rewrite Hf.
+Qed.
+
+(* ------------------------------------------------------------------------------------------ *)
+(** ** const arrays are never bound or passed where a mutable array is required *)
+
+(** the expression denotes an array whose elements must not be written through it *)
+Fixpoint denotes_const_array (e : texpr) : bool :=
+  match e with
+  | TVolatile x => denotes_const_array x      (* a const *view* of x: as const as x itself *)
+  | TArrLit _ _ _ => false                    (* a fresh array *)
+  | _ => match ty_of e with TArr _ true => true | _ => false end
+  end.
+
+Theorem const_array_not_to_mutable : forall e el,
+  denotes_const_array e = true -> coercible e (TArr el false) = false.
+Proof.
+  induction e; intros el H; simpl in H; try discriminate;
+    try (simpl; destruct (v_type v) as [|x []]; try discriminate;
+         rewrite never_const_to_mutable; reflexivity).
+  - (* TIndex *) simpl. destruct (ty_of e1) as [[]|]; discriminate.
+  - (* TCall *) simpl. destruct ret as [|x []]; try discriminate. apply never_const_to_mutable.
+  - (* TCast *) change (coercible (TCast k e) (TArr el false)) with (coercible_plain (snd (cast_map k)) (TArr el false)).
+    destruct (snd (cast_map k)) as [|x []]; try discriminate. apply never_const_to_mutable.
+  - (* TVolatile *) simpl. now apply IHe.
+  - (* TUn *) destruct (is_arith c); discriminate.
+  - (* TBin *) destruct (is_arith c); discriminate.
+  - (* TSpec *) change (coercible (TSpec e1 e2) (TArr el false)) with (coercible_plain (ty_of e1) (TArr el false)).
+    destruct (ty_of e1) as [|x []]; try discriminate. apply never_const_to_mutable.
+  - (* TArrInit *) simpl. destruct t as [|x []]; try discriminate. apply never_const_to_mutable.
+Qed.
+
+Theorem const_array_not_coerced_to_mutable : forall e el e',
+  coerce e (TArr el false) = OK e' -> denotes_const_array e = false.
+Proof.
+  intros e el e' H. unfold coerce in H.
+  destruct (denotes_const_array e) eqn:D; [|reflexivity].
+  rewrite (const_array_not_to_mutable e el D) in H. discriminate.
+Qed.
+
+(* ------------------------------------------------------------------------------------------ *)
+(** ** Types of cast / coerce results *)
+
+Ltac inv_res H :=
+  repeat match type of H with
+         | (match ?x with OK _ => _ | Err _ => _ end) = OK _ =>
+             let E := fresh "E" in destruct x eqn:E; [|discriminate H]
+         | (if ?c then _ else _) = OK _ =>
+             let E := fresh "E" in destruct c eqn:E; try discriminate H
+         | OK _ = OK _ => inversion H; subst; clear H
+         | Err _ = OK _ => discriminate H
+         end.
+
+Lemma pair_is_snd : forall t new k, pair_is t new k = true -> snd (cast_map k) = new.
+Proof.
+  intros t new k H. unfold pair_is in H. apply andb_prop in H as [_ H].
+  apply ty_eqb_eq in H. now symmetry.
+Qed.
+
+Lemma cast_tail_type : forall e t new e',
+  ty_of e = t -> cast_tail e t new = OK e' -> ty_of e' = new.
+Proof.
+  intros e t new e' Ht H. unfold cast_tail in H.
+  destruct (pair_is t new KStringToByteArray) eqn:P.
+  - inversion H; subst. simpl. now apply pair_is_snd in P.
+  - destruct t as [|a []]; try discriminate. destruct new as [|b []]; try discriminate.
+    destruct (dty_beq a b) eqn:D; [|discriminate]. inversion H; subst. simpl.
+    rewrite Ht. simpl. apply dty_beq_eq in D. now subst.
+Qed.
+
+Lemma cast_plain0_type : forall e t new e',
+  ty_of e = t -> cast_plain0 e t new = OK e' -> ty_of e' = new.
+Proof.
+  intros e t new e' Ht H. unfold cast_plain0 in H.
+  destruct (ty_eqb t new) eqn:E1.
+  { inversion H; subst. now apply ty_eqb_eq. }
+  destruct (pair_is t new KIntToByte) eqn:E2.
+  { inversion H; subst. simpl. now apply pair_is_snd in E2. }
+  destruct (pair_is t new KByteToInt) eqn:E3.
+  { inversion H; subst. simpl. now apply pair_is_snd in E3. }
+  eapply cast_tail_type; eauto.
+Qed.
+
+Lemma cast_plain_type : forall e t new e',
+  ty_of e = t -> cast_plain e t new = OK e' -> ty_of e' = new.
+Proof.
+  intros e t new e' Ht H. unfold cast_plain in H.
+  destruct (ty_eqb t new) eqn:E1.
+  { inversion H; subst. now apply ty_eqb_eq. }
+  destruct (pair_is t new KIntToByte) eqn:E2.
+  { inversion H; subst. simpl. now apply pair_is_snd in E2. }
+  destruct (pair_is t new KByteToInt) eqn:E3.
+  { inversion H; subst. simpl. now apply pair_is_snd in E3. }
+  destruct (ty_eqb new (TData BOOL)) eqn:E4.
+  { apply ty_eqb_eq in E4. subst new.
+    destruct (is_str_or_arr t).
+    - inversion H; subst. reflexivity.
+    - destruct (cast_plain0 e t (TData INT)); [|discriminate]. inversion H; subst. reflexivity. }
+  destruct (ty_eqb t (TData BOOL)) eqn:E5.
+  { eapply cast_plain0_type; [|exact H]. reflexivity. }
+  eapply cast_tail_type; eauto.
+Qed.
+
+Lemma cast_intvalue_type : forall self d s c new imp e',
+  cast_intvalue self d s c new imp = OK e' -> ty_of e' = new.
+Proof.
+  intros self d s c new imp e' H. unfold cast_intvalue in H.
+  destruct (ty_eqb new (TData BOOL)) eqn:E1.
+  { inversion H; subst. apply ty_eqb_eq in E1. now subst. }
+  destruct (ty_eqb new (TData BYTE)) eqn:E2.
+  { inversion H; subst. apply ty_eqb_eq in E2. now subst. }
+  destruct (ty_eqb new (TData INT)) eqn:E3.
+  { inversion H; subst. apply ty_eqb_eq in E3. now subst. }
+  eapply cast_plain_type; [|exact H]. reflexivity.
+Qed.
+
+Theorem cast_type : forall e new e', cast e new = OK e' -> ty_of e' = new.
+Proof.
+  induction e; intros new e' H; simpl in H;
+    try (eapply cast_plain_type; [|exact H]; reflexivity);
+    try (eapply cast_intvalue_type; exact H).
+  - (* TBool *)
+    destruct (ty_eqb new (TData INT)) eqn:E1.
+    { inversion H; subst. apply ty_eqb_eq in E1. now subst. }
+    destruct (ty_eqb new (TData BYTE)) eqn:E2.
+    { inversion H; subst. apply ty_eqb_eq in E2. now subst. }
+    eapply cast_plain_type; [|exact H]. reflexivity.
+  - (* TStr *)
+    destruct (ty_eqb new (TData BOOL)) eqn:E1.
+    { inversion H; subst. apply ty_eqb_eq in E1. now subst. }
+    eapply cast_plain_type; [|exact H]. reflexivity.
+  - (* TArrLit *)
+    destruct new as [d|el' k].
+    + eapply cast_plain_type; [|exact H]. reflexivity.
+    + destruct (map_result (fun v : texpr => cast v (TData el')) vs); [|discriminate].
+      inversion H; subst. reflexivity.
+  - (* TVolatile *) now apply IHe.
+Qed.
+
+Theorem coerce_type : forall e new e', coerce e new = OK e' -> ty_of e' = new.
+Proof.
+  intros e new e' H. unfold coerce in H.
+  destruct (coercible e new); [|discriminate].
+  destruct e; try (eapply cast_type; exact H); eapply cast_intvalue_type; exact H.
+Qed.
+
+(* ------------------------------------------------------------------------------------------ *)
+(** ** C07-3: statement-level soundness *)
+
+Lemma stmt_ind' : forall P : stmt -> Prop,
+  (forall v i, P (SDecl v i)) -> (forall l r, P (SAssign l r)) ->
+  (forall l c r, P (SIncAssign l c r)) -> (forall v, P (SReturn v)) -> P SBreak -> P SContinue ->
+  (forall e, P (SExpr e)) ->
+  (forall ss, Forall P ss -> P (SBlock ss)) ->
+  (forall c b e, P b -> P e -> P (SIf c b e)) ->
+  (forall b c k, P b -> P k -> P (SLoop b c k)) ->
+  (forall b u h, P b -> P h -> P (STry b u h)) ->
+  (forall b, P b -> P (SPreempt b)) ->
+  forall s, P s.
+Proof.
+  intros P H1 H2 H3 H4 H5 H6 H7 H8 H9 H10 H11 H12.
+  fix IH 1. intros [v i|l r|l c r|v| | |e|ss|c b e|b c k|b u h|b].
+  - apply H1.
+  - apply H2.
+  - apply H3.
+  - apply H4.
+  - apply H5.
+  - apply H6.
+  - apply H7.
+  - apply H8. induction ss as [|s ss IHss]; constructor; [apply IH | exact IHss].
+  - apply H9; apply IH.
+  - apply H10; apply IH.
+  - apply H11; apply IH.
+  - apply H12; apply IH.
+Qed.
+
+Fixpoint stmt_all (P : tstmt -> bool) (s : tstmt) : bool :=
+  P s &&
+  match s with
+  | TSBlock ss _ => forallb (stmt_all P) ss
+  | TSIf b _ e => stmt_all P b && stmt_all P e
+  | TSLoop b _ k => stmt_all P b && stmt_all P k
+  | TSTry b _ h => stmt_all P b && stmt_all P h
+  | TSPreempt b => stmt_all P b
+  | _ => true
+  end.
+
+Lemma add_decl_ret : forall en d, e_ret (add_decl en d) = e_ret en.
+Proof. intros en d. unfold add_decl. destruct (e_scopes en); reflexivity. Qed.
+
+Lemma finish_decl_ret : forall en v i t en',
+  finish_decl en v i = OK (t, en') -> e_ret en' = e_ret en /\ exists i', t = TSDecl v i'.
+Proof.
+  intros en v i t en' H. unfold finish_decl in H.
+  destruct (coerce i (v_type v)) as [ci|]; [|discriminate].
+  destruct ci; inversion H; subst; split; try apply add_decl_ret; eauto.
+Qed.
+
+(** a property of single checked statements, possibly depending on the enclosing function's
+    return type, which elab_stmt establishes for the node it builds *)
+Definition local_prop (P : option dty -> tstmt -> bool) : Prop :=
+  forall en s t en', elab_stmt en s = OK (t, en') -> P (e_ret en) t = true.
+
+Lemma elab_stmt_env_ret : forall s en t en', elab_stmt en s = OK (t, en') -> e_ret en' = e_ret en.
+Proof.
+  intros s en t en' H. destruct s; simpl in H.
+  - inv_res H. apply finish_decl_ret in H. tauto.
+  - inv_res H. reflexivity.
+  - inv_res H. reflexivity.
+  - destruct (e_ret en) eqn:R; [|discriminate]. destruct val; inv_res H; exact R.
+  - inv_res H. reflexivity.
+  - inv_res H. reflexivity.
+  - inv_res H. reflexivity.
+  - inv_res H. reflexivity.
+  - inv_res H. reflexivity.
+  - inv_res H. reflexivity.
+  - inv_res H. reflexivity.
+  - inv_res H. reflexivity.
+Qed.
+
+Lemma elab_block_all : forall (P : tstmt -> bool) rt elab unreach ss,
+  Forall (fun s => forall en t en', e_ret en = rt -> elab en s = OK (t, en') ->
+                   stmt_all P t = true /\ e_ret en' = rt) ss ->
+  forall en mode cont r, e_ret en = rt ->
+    elab_block elab unreach ss en mode cont = OK r -> forallb (stmt_all P) (fst r) = true.
+Proof.
+  intros P rt elab unreach ss HF. induction HF as [|s ss Hs HF IH]; intros en mode cont r Hen H.
+  - simpl in H. inversion H; subst. reflexivity.
+  - simpl in H. destruct (negb (m_none mode) || cont).
+    + destruct unreach; inversion H; subst; reflexivity.
+    + destruct (elab en s) as [[t1 en1]|] eqn:E; [|discriminate]. simpl in H.
+      destruct (Hs en t1 en1 Hen E) as [Ht1 Hen1].
+      match type of H with (match ?x with OK _ => _ | Err _ => _ end) = _ => destruct x as [rest|] eqn:E2; [|discriminate] end.
+      inversion H; subst. simpl. rewrite Ht1. simpl. eapply IH; [exact Hen1 | exact E2].
+Qed.
+
+Theorem elab_stmt_all : forall P, local_prop P ->
+  forall s en t en', elab_stmt en s = OK (t, en') -> stmt_all (P (e_ret en)) t = true.
+Proof.
+  intros P HL. induction s as [v i|l r|l c r|v| | |e|ss HF|c b e IHb IHe|b c k IHb IHk|b u h IHb IHh|b IHb]
+    using stmt_ind'; intros en t en' HE;
+    pose proof (HL en _ t en' HE) as Hloc; simpl in HE.
+  - (* SDecl *) inv_res HE. apply finish_decl_ret in HE as [_ [i' ->]]. simpl. now rewrite Hloc.
+  - inv_res HE. simpl in *. now rewrite Hloc.
+  - inv_res HE. simpl in *. now rewrite Hloc.
+  - destruct (e_ret en); [|discriminate]. destruct v; inv_res HE; simpl in *; now rewrite Hloc.
+  - inv_res HE. simpl in *. now rewrite Hloc.
+  - inv_res HE. simpl in *. now rewrite Hloc.
+  - inv_res HE. simpl in *. now rewrite Hloc.
+  - (* SBlock *)
+    match type of HE with (match ?x with OK _ => _ | Err _ => _ end) = _ => destruct x as [r|] eqn:E; [|discriminate] end.
+    inversion HE; subst. simpl. rewrite Hloc. simpl.
+    eapply (elab_block_all (P (e_ret en')) (e_ret en')); [| |exact E]; [|reflexivity].
+    rewrite Forall_forall in *. intros s Hin en0 t0 en0' Hr He.
+    split; [|rewrite <- Hr; eapply elab_stmt_env_ret; exact He].
+    rewrite <- Hr. eapply HF; eauto.
+  - (* SIf *)
+    destruct (elab_stmt en b) as [[tb eb]|] eqn:E1; [|discriminate].
+    destruct (elab_expr en c) as [c'|]; [|discriminate]. destruct (cast c' (TData BOOL)); [|discriminate].
+    destruct (elab_stmt en e) as [[te ee]|] eqn:E2; [|discriminate].
+    inversion HE; subst. simpl. rewrite Hloc.
+    rewrite (IHb _ _ _ E1), (IHe _ _ _ E2). reflexivity.
+  - (* SLoop *)
+    destruct (elab_stmt en b) as [[tb eb]|] eqn:E1; [|discriminate].
+    destruct (elab_expr en c) as [c'|]; [|discriminate]. destruct (cast c' (TData BOOL)); [|discriminate].
+    destruct (elab_stmt en k) as [[tk ek]|] eqn:E2; [|discriminate].
+    inversion HE; subst. simpl. rewrite Hloc.
+    rewrite (IHb _ _ _ E1), (IHk _ _ _ E2). reflexivity.
+  - (* STry *)
+    destruct (elab_stmt en b) as [[tb eb]|] eqn:E1; [|discriminate].
+    destruct (elab_stmt en h) as [[th eh]|] eqn:E2; [|discriminate].
+    inversion HE; subst. simpl. rewrite Hloc.
+    rewrite (IHb _ _ _ E1), (IHh _ _ _ E2). reflexivity.
+  - (* SPreempt *)
+    destruct (elab_stmt en b) as [[tb eb]|] eqn:E1; [|discriminate].
+    inversion HE; subst. simpl. rewrite Hloc.
+    now rewrite (IHb _ _ _ E1).
+Qed.
+
+(** *** assignment targets *)
+Definition target_ok (l : texpr) : bool := is_assignable l && negb (lookup_const l).
+
+Definition assign_ok (_ : option dty) (s : tstmt) : bool :=
+  match s with TSAssign l _ | TSIncAssign l _ _ => target_ok l | _ => true end.
+
+(** what target_ok says: the target is a non-const variable, or an element of a non-const
+    array -- or an element of a STRING (defect F7: ArrayLookup.const is False for strings) *)
+Lemma target_ok_shape : forall l, target_ok l = true ->
+  (exists v, l = TVar v /\ v_const v = false) \/
+  (exists src i el, l = TIndex src i /\ ty_of src = TArr el false) \/
+  (exists src i, l = TIndex src i /\ ty_of src = TData STRING).
+Proof.
+  intros l H. unfold target_ok in H. apply andb_prop in H as [H1 H2]. apply negb_true_iff in H2.
+  destruct l; simpl in H1; try discriminate.
+  - left. eauto.
+  - simpl in H2. destruct (ty_of l1) as [[]|el []] eqn:T; try discriminate.
+    + right. right. eauto.
+    + right. left. eauto 6.
+Qed.
+
+Lemma elab_assign_target : forall en l r mk p,
+  elab_assign en l r mk = OK p -> target_ok (fst p) = true /\ ty_of (snd p) = ty_of (fst p).
+Proof.
+  intros en l r mk p H. unfold elab_assign in H.
+  destruct (elab_expr en l) as [l'|]; [|discriminate].
+  destruct (negb (is_assignable l') || lookup_const l') eqn:C; [discriminate|].
+  destruct (elab_expr en (mk r)) as [r'|]; [|discriminate].
+  destruct (coerce r' (ty_of l')) as [cr|] eqn:E; [|discriminate].
+  inversion H; subst. simpl. apply orb_false_iff in C as [C1 C2]. apply negb_false_iff in C1.
+  split; [unfold target_ok; now rewrite C1, C2 | eapply coerce_type; eauto].
+Qed.
+
+Lemma assign_ok_local : local_prop assign_ok.
+Proof.
+  intros en s t en' H. destruct s; simpl in H.
+  - inv_res H. apply finish_decl_ret in H as [_ [i' ->]]. reflexivity.
+  - inv_res H. simpl. now apply elab_assign_target in E.
+  - inv_res H. simpl. now apply elab_assign_target in E.
+  - destruct (e_ret en); [|discriminate]. destruct val; inv_res H; reflexivity.
+  - inv_res H. reflexivity.
+  - inv_res H. reflexivity.
+  - inv_res H. reflexivity.
+  - inv_res H. reflexivity.
+  - inv_res H. reflexivity.
+  - inv_res H. reflexivity.
+  - inv_res H. reflexivity.
+  - inv_res H. reflexivity.
+Qed.
+
+(** *** return statements *)
+Definition return_ok (rt : option dty) (s : tstmt) : bool :=
+  match s with
+  | TSReturn (Some v) =>
+      match rt with
+      | Some d => negb (dty_beq d EMPTY) && ty_eqb (ty_of v) (TData d)
+      | None => false
+      end
+  | TSReturn None => match rt with Some d => dty_beq d EMPTY | None => false end
+  | _ => true
+  end.
+
+Lemma return_ok_local : local_prop return_ok.
+Proof.
+  intros en s t en' H. destruct s; simpl in H.
+  - inv_res H. apply finish_decl_ret in H as [_ [i' ->]]. reflexivity.
+  - inv_res H. reflexivity.
+  - inv_res H. reflexivity.
+  - destruct (e_ret en) as [rt|]; [|discriminate]. destruct val; inv_res H; simpl.
+    + rewrite E. simpl. apply coerce_type in E1. rewrite E1. apply ty_eqb_refl.
+    + now apply negb_false_iff in E.
+  - inv_res H. reflexivity.
+  - inv_res H. reflexivity.
+  - inv_res H. reflexivity.
+  - inv_res H. reflexivity.
+  - inv_res H. reflexivity.
+  - inv_res H. reflexivity.
+  - inv_res H. reflexivity.
+  - inv_res H. reflexivity.
+Qed.
+
+(** *** functions and programs *)
+Lemma bind_params_ret : forall ps en en1, bind_params en ps = OK en1 -> e_ret en1 = e_ret en.
+Proof.
+  induction ps as [|p ps IH]; intros en en1 H; simpl in H.
+  - now inversion H.
+  - destruct (redeclared en (v_name p)); [discriminate|].
+    destruct (finish_decl en p (TParam p)) as [[t e2]|] eqn:E; [|discriminate]. simpl in H.
+    apply IH in H. apply finish_decl_ret in E as [E _]. congruence.
+Qed.
+
+Definition compound (s : tstmt) : bool :=
+  match s with
+  | TSDecl _ _ | TSAssign _ _ | TSIncAssign _ _ _ | TSReturn _ | TSBreak | TSContinue | TSExpr _ => false
+  | _ => true
+  end.
+
+Lemma elab_func_all : forall P, local_prop P ->
+  (forall rt ss m, P rt (TSBlock ss m) = true) ->
+  P (Some EMPTY) (TSReturn None) = true ->
+  forall en f tf, elab_func en f = OK tf ->
+    stmt_all (P (Some (tf_ret tf))) (tf_body tf) = true.
+Proof.
+  intros P HL HC HR en f tf H. unfold elab_func in H.
+  destruct (bind_params (child_env en (Some (fd_ret f))) (fd_params f)) as [en1|] eqn:B; [|discriminate].
+  apply bind_params_ret in B. simpl in B.
+  destruct (elab_stmt en1 (SBlock (fd_body f))) as [[t en2]|] eqn:E; [|discriminate].
+  pose proof (elab_stmt_all P HL _ _ _ _ E) as A. rewrite B in A.
+  simpl in H. destruct t; try discriminate.
+  destruct (m_break mode); [discriminate|].
+  destruct (m_defeat mode && negb (flavor_eqb (id_flavor (fd_name f)) FL_DEFEAT)); [discriminate|].
+  destruct (m_none mode).
+  - destruct (negb (dty_beq (fd_ret f) EMPTY)) eqn:R; [discriminate|].
+    inversion H; subst. simpl.
+    apply negb_false_iff in R. apply dty_beq_eq in R.
+    simpl in A. apply andb_prop in A as [_ A].
+    rewrite HC. simpl. rewrite forallb_app, A. simpl. rewrite R, HR. reflexivity.
+  - inversion H; subst. exact A.
+Qed.
+
+Lemma elab_funcs_all : forall P, local_prop P ->
+  (forall rt ss m, P rt (TSBlock ss m) = true) ->
+  P (Some EMPTY) (TSReturn None) = true ->
+  forall fs en tfs, elab_funcs en fs = OK tfs ->
+    forallb (fun tf => stmt_all (P (Some (tf_ret tf))) (tf_body tf)) tfs = true.
+Proof.
+  intros P HL HC HR. induction fs as [|f fs IH]; intros en tfs H; simpl in H.
+  - inversion H. reflexivity.
+  - destruct (elab_func en f) as [tf|] eqn:E; [|discriminate].
+    destruct (elab_funcs en fs) as [tl|] eqn:E2; [|discriminate].
+    inversion H; subst. simpl. rewrite (elab_func_all P HL HC HR _ _ _ E). simpl. eapply IH; eauto.
+Qed.
+
+Definition funcs_all (P : option dty -> tstmt -> bool) (tp : tprogram) : bool :=
+  forallb (fun tf => stmt_all (P (Some (tf_ret tf))) (tf_body tf)) (tp_funcs tp).
+
+Lemma elab_program_all : forall P, local_prop P ->
+  (forall rt ss m, P rt (TSBlock ss m) = true) ->
+  P (Some EMPTY) (TSReturn None) = true ->
+  forall u p tp, elab_program u p = OK tp -> funcs_all P tp = true.
+Proof.
+  intros P HL HC HR u p tp H. unfold elab_program in H.
+  destruct (add_funcs [] builtin_fsigs); [|discriminate].
+  destruct (add_funcs a (map sig_of (p_funcs p))); [|discriminate].
+  destruct (elab_globals _ (p_vars p)) as [g|]; [|discriminate].
+  destruct (elab_funcs (snd g) (p_funcs p)) as [fs|] eqn:E; [|discriminate].
+  inversion H; subst. unfold funcs_all. simpl. eapply elab_funcs_all; eauto.
+Qed.
+
+(** No accepted program assigns to a const variable or to an element of a const array:
+    every assignment target in the checked tree is a non-const variable, an element of a
+    non-const array -- or (F7) an element of a string. *)
+Theorem no_assign_to_const : forall u p tp,
+  elab_program u p = OK tp -> funcs_all assign_ok tp = true.
+Proof.
+  intros. eapply (elab_program_all assign_ok assign_ok_local); eauto.
+Qed.
+
+(** Every return statement of an accepted program matches its function's return type. *)
+Theorem returns_match : forall u p tp,
+  elab_program u p = OK tp -> funcs_all return_ok tp = true.
+Proof.
+  intros. eapply (elab_program_all return_ok return_ok_local); eauto.
+Qed.
+
+(** F7: the string-element half of "no assignment to a string element" is FALSE of the code. *)
+Definition assigns_to_string_element (s : tstmt) : bool :=
+  negb (stmt_all (fun x => match x with
+                           | TSAssign (TIndex src _) _ | TSIncAssign (TIndex src _) _ _ =>
+                               negb (ty_eqb (ty_of src) (TData STRING))
+                           | _ => true
+                           end) s).
+
+Definition f7_witness : program :=
+  mkProgram []
+    [mkFdecl EMPTY (mkId "f" FL_NONE) []
+       [SDecl (mkVar "s" (TData STRING) false) (EStr "ab");
+        SAssign (EIndex (EVar "s") (EInt 0)) (EChar 99)]].
+
+Theorem string_element_assignment_refuted : exists p tp,
+  elab_program false p = OK tp /\
+  existsb (fun tf => assigns_to_string_element (tf_body tf)) (tp_funcs tp) = true.
+Proof. exists f7_witness. eexists. split; [vm_compute; reflexivity | vm_compute; reflexivity]. Qed.
+
+(** F6: an array literal of element type `empty` is accepted and typed `const empty[]`. *)
+Definition f6_witness : program :=
+  mkProgram []
+    [mkFdecl EMPTY (mkId "e" FL_NONE) [] [];
+     mkFdecl EMPTY (mkId "f" FL_NONE) []
+       [SExpr (ECall (mkId "write" FL_NONE) [ELen (EArr [ECall (mkId "e" FL_NONE) []])])]].
+
+Fixpoint has_empty_array (e : texpr) : bool :=
+  match e with
+  | TArrLit (_ :: _) (TArr EMPTY _) _ => true
+  | TLen s => has_empty_array s
+  | TCall _ args _ => existsb has_empty_array args
+  | _ => false
+  end.
+
+Theorem empty_typed_array_refuted : exists p tp,
+  elab_program false p = OK tp /\
+  existsb (fun tf => match tf_body tf with
+                     | TSBlock (TSExpr e :: _) _ => has_empty_array e
+                     | _ => false
+                     end) (tp_funcs tp) = true.
+Proof. exists f6_witness. eexists. split; [vm_compute; reflexivity | vm_compute; reflexivity]. Qed.
+
+(* ------------------------------------------------------------------------------------------ *)
+(** ** Well-formedness of checked expressions; no nested arrays *)
+
+Lemma texpr_ind' : forall P : texpr -> Prop,
+  (forall d s c, P (TInt d s c)) -> (forall d s c, P (TByte d s c)) -> (forall b, P (TBool b)) ->
+  (forall s, P (TStr s)) -> (forall v, P (TVar v)) -> (forall v, P (TParam v)) ->
+  (forall vs t k, Forall P vs -> P (TArrLit vs t k)) ->
+  (forall s i, P s -> P i -> P (TIndex s i)) -> (forall s, P s -> P (TLen s)) ->
+  (forall f args r, Forall P args -> P (TCall f args r)) ->
+  (forall k e, P e -> P (TCast k e)) -> (forall e, P e -> P (TVolatile e)) ->
+  (forall c e s, P e -> P (TUn c e s)) -> (forall c l r s, P l -> P r -> P (TBin c l r s)) ->
+  (forall l r, P l -> P r -> P (TSpec l r)) -> (forall t l, P l -> P (TArrInit t l)) ->
+  forall e, P e.
+Proof.
+  intros P H1 H2 H3 H4 H5 H6 H7 H8 H9 H10 H11 H12 H13 H14 H15 H16.
+  fix IH 1. intros [d s c|d s c|b|s|v|v|vs t k|s i|s|f args r|k e|e|c e s|c l r s|l r|t l].
+  - apply H1. - apply H2. - apply H3. - apply H4. - apply H5. - apply H6.
+  - apply H7. induction vs as [|x vs IHvs]; constructor; [apply IH | exact IHvs].
+  - apply H8; apply IH.
+  - apply H9; apply IH.
+  - apply H10. induction args as [|x vs IHvs]; constructor; [apply IH | exact IHvs].
+  - apply H11; apply IH.
+  - apply H12; apply IH.
+  - apply H13; apply IH.
+  - apply H14; apply IH.
+  - apply H15; apply IH.
+  - apply H16; apply IH.
+Qed.
+
+Lemma expr_ind' : forall P : expr -> Prop,
+  (forall n, P (EInt n)) -> (forall n, P (EChar n)) -> (forall b, P (EBool b)) -> (forall s, P (EStr s)) ->
+  (forall x, P (EVar x)) -> (forall es, Forall P es -> P (EArr es)) ->
+  (forall s i, P s -> P i -> P (EIndex s i)) -> (forall s, P s -> P (ELen s)) ->
+  (forall f args, Forall P args -> P (ECall f args)) ->
+  (forall c e, P e -> P (EUn c e)) -> (forall c l r, P l -> P r -> P (EBin c l r)) ->
+  (forall e t, P e -> P (EIs e t)) -> (forall l r, P l -> P r -> P (ESpec l r)) ->
+  (forall t l, P l -> P (EArrInit t l)) ->
+  forall e, P e.
+Proof.
+  intros P H1 H2 H3 H4 H5 H6 H7 H8 H9 H10 H11 H12 H13 H14.
+  fix IH 1. intros [n|n|b|s|x|es|s i|s|f args|c e|c l r|e t|l r|t l].
+  - apply H1. - apply H2. - apply H3. - apply H4. - apply H5.
+  - apply H6. induction es as [|x vs IHvs]; constructor; [apply IH | exact IHvs].
+  - apply H7; apply IH.
+  - apply H8; apply IH.
+  - apply H9. induction args as [|x vs IHvs]; constructor; [apply IH | exact IHvs].
+  - apply H10; apply IH.
+  - apply H11; apply IH.
+  - apply H12; apply IH.
+  - apply H13; apply IH.
+  - apply H14; apply IH.
+Qed.
+
+(** Every array literal has an array type and scalar-typed, well-formed elements (of exactly
+    the element type once it is type-locked); every Volatile wraps an array. *)
+Fixpoint wf (e : texpr) : bool :=
+  match e with
+  | TArrLit vs t locked =>
+      is_array t &&
+      forallb (fun v => wf v && is_scalar (ty_of v) &&
+                        (negb locked || ty_eqb (ty_of v) (TData (el_of t)))) vs
+  | TIndex s i => wf s && wf i
+  | TLen s => wf s
+  | TCall _ args _ => forallb wf args
+  | TCast _ x => wf x
+  | TVolatile x => wf x && is_array (ty_of x)
+  | TUn _ x _ => wf x
+  | TBin _ l r _ => wf l && wf r
+  | TSpec l r => wf l && wf r
+  | TArrInit _ l => wf l
+  | _ => true
+  end.
+
+Lemma coercible_plain_arr_scalar : forall el k d, coercible_plain (TArr el k) (TData d) = false.
+Proof. intros. rewrite lattice_plain. destruct k; reflexivity. Qed.
+
+Lemma arr_not_coercible_scalar : forall e d,
+  wf e = true -> is_array (ty_of e) = true -> coercible e (TData d) = false.
+Proof.
+  induction e using texpr_ind'; intros d0 W A; simpl in A; try discriminate; simpl.
+  - destruct (v_type v); [discriminate|]. apply coercible_plain_arr_scalar.
+  - destruct (v_type v); [discriminate|]. apply coercible_plain_arr_scalar.
+  - reflexivity.
+  - destruct (ty_of e1) as [[]|]; discriminate.
+  - destruct r; [discriminate|]. apply coercible_plain_arr_scalar.
+  - destruct (snd (cast_map k)); [discriminate|]. apply coercible_plain_arr_scalar.
+  - simpl in W. apply andb_prop in W as [W1 W2]. now apply IHe.
+  - destruct (is_arith c); discriminate.
+  - destruct (is_arith c); discriminate.
+  - destruct (ty_of e1); [discriminate|]. apply coercible_plain_arr_scalar.
+  - destruct t; [discriminate|]. apply coercible_plain_arr_scalar.
+Qed.
+
+Lemma map_result_Forall : forall {A B} (f : A -> result B) (P : A -> Prop) (Q : B -> Prop) l l',
+  Forall (fun x => forall y, P x -> f x = OK y -> Q y) l -> Forall P l ->
+  map_result f l = OK l' -> Forall Q l'.
+Proof.
+  intros A B f P Q l. induction l as [|x l IH]; intros l' HF HP H; simpl in H.
+  - inversion H. constructor.
+  - destruct (f x) as [y|] eqn:E; [|discriminate].
+    destruct (map_result f l) as [tl|] eqn:E2; [|discriminate].
+    inversion H; subst. inversion HF; subst. inversion HP; subst.
+    constructor; [eapply H2; eauto | eapply IH; eauto].
+Qed.
+
+Lemma map_result_types : forall vs el vs',
+  map_result (fun v => cast v (TData el)) vs = OK vs' ->
+  Forall (fun v' => ty_of v' = TData el) vs'.
+Proof.
+  induction vs as [|x l IH]; intros el vs' H; simpl in H.
+  - inversion H. constructor.
+  - destruct (cast x (TData el)) as [y|] eqn:E; [|discriminate].
+    destruct (map_result (fun v => cast v (TData el)) l) as [tl|] eqn:E2; [|discriminate].
+    inversion H; subst. constructor; [eapply cast_type; eauto | eapply IH; eauto].
+Qed.
+
+Lemma cast_tail_wf : forall e t new e',
+  ty_of e = t -> wf e = true -> cast_tail e t new = OK e' -> wf e' = true.
+Proof.
+  intros e t new e' Ht W H. unfold cast_tail in H.
+  destruct (pair_is t new KStringToByteArray).
+  - inversion H; subst. exact W.
+  - destruct t as [|a []]; try discriminate. destruct new as [|b []]; try discriminate.
+    destruct (dty_beq a b); [|discriminate]. inversion H; subst. simpl. rewrite W, Ht. reflexivity.
+Qed.
+
+Lemma cast_plain0_wf : forall e t new e',
+  ty_of e = t -> wf e = true -> cast_plain0 e t new = OK e' -> wf e' = true.
+Proof.
+  intros e t new e' Ht W H. unfold cast_plain0 in H.
+  destruct (ty_eqb t new); [inversion H; subst; exact W|].
+  destruct (pair_is t new KIntToByte); [inversion H; subst; exact W|].
+  destruct (pair_is t new KByteToInt); [inversion H; subst; exact W|].
+  eapply cast_tail_wf; eauto.
+Qed.
+
+Lemma cast_plain_wf : forall e t new e',
+  ty_of e = t -> wf e = true -> cast_plain e t new = OK e' -> wf e' = true.
+Proof.
+  intros e t new e' Ht W H. unfold cast_plain in H.
+  destruct (ty_eqb t new); [inversion H; subst; exact W|].
+  destruct (pair_is t new KIntToByte); [inversion H; subst; exact W|].
+  destruct (pair_is t new KByteToInt); [inversion H; subst; exact W|].
+  destruct (ty_eqb new (TData BOOL)).
+  { destruct (is_str_or_arr t); [inversion H; subst; exact W|].
+    destruct (cast_plain0 e t (TData INT)) as [x|] eqn:E; [|discriminate].
+    inversion H; subst. simpl. eapply cast_plain0_wf; [| |exact E]; auto. }
+  destruct (ty_eqb t (TData BOOL)).
+  { eapply cast_plain0_wf; [| |exact H]; [reflexivity | exact W]. }
+  eapply cast_tail_wf; eauto.
+Qed.
+
+Lemma cast_intvalue_wf : forall self d s c new imp e',
+  wf self = true -> cast_intvalue self d s c new imp = OK e' -> wf e' = true.
+Proof.
+  intros self d s c new imp e' W H. unfold cast_intvalue in H.
+  destruct (ty_eqb new (TData BOOL)); [inversion H; reflexivity|].
+  destruct (ty_eqb new (TData BYTE)); [inversion H; reflexivity|].
+  destruct (ty_eqb new (TData INT)); [inversion H; reflexivity|].
+  eapply cast_plain_wf; [| |exact H]; [reflexivity | exact W].
+Qed.
+
+Theorem cast_wf : forall e new e', wf e = true -> cast e new = OK e' -> wf e' = true.
+Proof.
+  induction e using texpr_ind'; intros new e' W HC; simpl in HC;
+    try (eapply cast_plain_wf; [| |exact HC]; [reflexivity | exact W]);
+    try (eapply cast_intvalue_wf; [|exact HC]; exact W).
+  - (* TBool *)
+    destruct (ty_eqb new (TData INT)); [inversion HC; reflexivity|].
+    destruct (ty_eqb new (TData BYTE)); [inversion HC; reflexivity|].
+    eapply cast_plain_wf; [| |exact HC]; [reflexivity | exact W].
+  - (* TStr *)
+    destruct (ty_eqb new (TData BOOL)); [inversion HC; reflexivity|].
+    eapply cast_plain_wf; [| |exact HC]; [reflexivity | exact W].
+  - (* TArrLit *)
+    destruct new as [d|el' k'].
+    + eapply cast_plain_wf; [| |exact HC]; [reflexivity | exact W].
+    + destruct (map_result (fun v => cast v (TData el')) vs) as [vs'|] eqn:E; [|discriminate].
+      inversion HC; subst. simpl.
+      simpl in W. apply andb_prop in W as [_ W]. rewrite forallb_forall in W.
+      pose proof (map_result_types _ _ _ E) as HT.
+      assert (HW : Forall (fun v' => wf v' = true) vs').
+      { eapply (map_result_Forall _ (fun v => wf v = true)); [| |exact E].
+        - rewrite Forall_forall in *. intros x Hx y Wx Ex. eapply H; eauto.
+        - rewrite Forall_forall. intros x Hx. specialize (W x Hx).
+          apply andb_prop in W as [W _]. apply andb_prop in W as [W _]. exact W. }
+      rewrite forallb_forall. intros v' Hv'.
+      rewrite Forall_forall in HT, HW. rewrite (HW v' Hv'), (HT v' Hv'). simpl. destruct el'; reflexivity.
+  - (* TVolatile *) simpl in W. apply andb_prop in W as [W _]. eapply IHe; eauto.
+Qed.
+
+Theorem coerce_wf : forall e new e', wf e = true -> coerce e new = OK e' -> wf e' = true.
+Proof.
+  intros e new e' W H. unfold coerce in H. destruct (coercible e new); [|discriminate].
+  destruct e; try (eapply cast_wf; eauto; fail); eapply cast_intvalue_wf; eauto.
+Qed.
+
+Lemma coerce_all_wf : forall args ps cargs,
+  forallb wf args = true -> coerce_all args ps = OK cargs -> forallb wf cargs = true.
+Proof.
+  induction args as [|a args IH]; intros ps cargs W H; simpl in H.
+  - inversion H. reflexivity.
+  - destruct ps as [|p ps]; [inversion H; reflexivity|].
+    simpl in W. apply andb_prop in W as [W1 W2].
+    destruct (coerce a p) as [a'|] eqn:E; [|discriminate].
+    destruct (coerce_all args ps) as [tl|] eqn:E2; [|discriminate].
+    inversion H; subst. simpl. rewrite (coerce_wf _ _ _ W1 E). simpl. eapply IH; eauto.
+Qed.
+
+Lemma arr_pick_wf : forall vs cands seen te,
+  forallb wf vs = true -> arr_pick vs cands seen = OK te -> wf te = true.
+Proof.
+  intros vs cands. induction cands as [|t tl IH]; intros seen te W H; simpl in H; [discriminate|].
+  destruct (existsb (ty_eqb t) seen); [eapply IH; eauto|].
+  destruct t as [d|]; [|discriminate].
+  destruct (forallb (fun v => coercible v (TData d)) vs) eqn:C; [|eapply IH; eauto].
+  inversion H; subst. simpl. rewrite forallb_forall in *. intros v Hv.
+  rewrite (W v Hv). simpl. rewrite andb_true_r.
+  destruct (ty_of v) eqn:T; [reflexivity|].
+  exfalso. pose proof (arr_not_coercible_scalar v d (W v Hv)) as A. rewrite T in A.
+  rewrite (C v Hv) in A. discriminate (A eq_refl).
+Qed.
+
+Lemma at_subst_wf : forall e, is_primitive e = true -> wf (at_subst e) = true.
+Proof. intros e H. destruct e; try discriminate; reflexivity. Qed.
+
+Lemma simplify_arith2_wf : forall c l r s te,
+  wf l = true -> wf r = true -> simplify_arith2 c l r s = OK te -> wf te = true.
+Proof.
+  intros c l r s te Wl Wr H. unfold simplify_arith2 in H.
+  assert (G : wf (TBin c l r s) = true) by (simpl; now rewrite Wl, Wr).
+  destruct l; try (inversion H; subst; exact G).
+  destruct r; try (inversion H; subst; exact G).
+  destruct (lift_fold (fold_arith2 c d d0)); inversion H; reflexivity.
+Qed.
+
+Lemma simplify_arith1_wf : forall c a s te,
+  wf a = true -> simplify_arith1 c a s = OK te -> wf te = true.
+Proof.
+  intros c a s te W H. unfold simplify_arith1 in H.
+  assert (G : wf (TUn c a s) = true) by (simpl; exact W).
+  destruct a; try (inversion H; subst; exact G).
+  destruct (lift_fold (fold_arith1 c d)); inversion H; reflexivity.
+Qed.
+
+Lemma simplify_bool2_wf : forall c l r te,
+  wf l = true -> wf r = true -> simplify_bool2 c l r = OK te -> wf te = true.
+Proof.
+  intros c l r te Wl Wr H. unfold simplify_bool2 in H.
+  destruct (is_primitive l && is_primitive r).
+  - destruct (prim_data l); [|discriminate]. destruct (prim_data r); [|discriminate].
+    destruct (lift_fold (fold_bool2 c z z0)); inversion H; reflexivity.
+  - inversion H; subst. simpl. now rewrite Wl, Wr.
+Qed.
+
+Lemma simplify_bool1_wf : forall c a te,
+  wf a = true -> simplify_bool1 c a = OK te -> wf te = true.
+Proof.
+  intros c a te W H. unfold simplify_bool1 in H.
+  destruct (is_primitive a).
+  - destruct (prim_data a); [|discriminate].
+    destruct (lift_fold (fold_bool1 c z)); inversion H; reflexivity.
+  - inversion H; subst. simpl. exact W.
+Qed.
+
+Lemma map_result_wf : forall en es vs,
+  Forall (fun e => forall te, elab_expr en e = OK te -> wf te = true) es ->
+  map_result (elab_expr en) es = OK vs -> forallb wf vs = true.
+Proof.
+  intros en es. induction es as [|x es IH]; intros vs HF H; simpl in H.
+  - inversion H. reflexivity.
+  - destruct (elab_expr en x) as [x'|] eqn:E; [|discriminate].
+    destruct (map_result (elab_expr en) es) as [tl|] eqn:E2; [|discriminate].
+    inversion H; subst. inversion HF; subst. simpl. rewrite (H2 _ E). simpl. eapply IH; eauto.
+Qed.
+
+Theorem elab_expr_wf : forall e en te, elab_expr en e = OK te -> wf te = true.
+Proof.
+  induction e using expr_ind'; intros en te HE; simpl in HE.
+  - inversion HE; reflexivity.
+  - inversion HE; reflexivity.
+  - inversion HE; reflexivity.
+  - inversion HE; reflexivity.
+  - destruct (lookup_var en x) as [d|]; [|discriminate].
+    destruct ((v_const (d_var d) || is_global en) && is_primitive (d_init d)) eqn:C.
+    + inversion HE; subst. apply andb_prop in C as [_ C]. now apply at_subst_wf.
+    + inversion HE; reflexivity.
+  - destruct es as [|e0 es]; [inversion HE; reflexivity|].
+    destruct (map_result (elab_expr en) (e0 :: es)) as [vs|] eqn:E; [|discriminate].
+    eapply arr_pick_wf; [|exact HE]. eapply map_result_wf; [|exact E].
+    rewrite Forall_forall in *. intros x Hx te0 Hte. eapply H; eauto.
+  - (* EIndex *)
+    destruct (elab_expr en e1) as [s'|] eqn:E1; [|discriminate].
+    destruct (negb (is_str_or_arr (ty_of s'))); [discriminate|].
+    pose proof (IHe1 _ _ E1) as W1.
+    match type of HE with (match ?x with OK _ => _ | Err _ => _ end) = _ => destruct x as [s''|] eqn:ES; [|discriminate] end.
+    assert (W2 : wf s'' = true).
+    { destruct s'; try (destruct (is_array _ && dty_beq _ EMPTY); [discriminate|]; inversion ES; subst; exact W1).
+      destruct (dty_beq (el_of t) EMPTY); [discriminate|]. eapply coerce_wf; eauto. }
+    destruct (elab_expr en e2) as [i'|] eqn:E2; [|discriminate].
+    destruct (coerce i' (TData INT)) as [i''|] eqn:E3; [|discriminate].
+    inversion HE; subst. simpl. rewrite W2. simpl. eapply coerce_wf; [|exact E3]. eapply IHe2; eauto.
+  - (* ELen *)
+    destruct (elab_expr en e) as [s'|] eqn:E1; [|discriminate].
+    destruct (negb (is_str_or_arr (ty_of s'))); [discriminate|].
+    inversion HE; subst. simpl. eapply IHe; eauto.
+  - (* ECall *)
+    destruct (map_result (elab_expr en) args) as [args'|] eqn:E; [|discriminate].
+    destruct (resolve (e_funcs en) f args') as [sg|]; [|discriminate].
+    destruct (coerce_all args' (f_params sg)) as [cargs|] eqn:E2; [|discriminate].
+    inversion HE; subst. simpl. eapply coerce_all_wf; [|exact E2]. eapply map_result_wf; [|exact E].
+    rewrite Forall_forall in *. intros x Hx te0 Hte. eapply H; eauto.
+  - (* EUn *)
+    destruct (op_family c).
+    + discriminate.
+    + destruct (elab_expr en e) as [a'|] eqn:E1; [|discriminate].
+      destruct (coerce a' (TData INT)) as [ca|] eqn:E2; [|discriminate].
+      eapply simplify_arith1_wf; [|exact HE]. eapply coerce_wf; [|exact E2]. eapply IHe; eauto.
+    + discriminate.
+    + destruct (elab_expr en e) as [a'|] eqn:E1; [|discriminate].
+      destruct (cast a' (TData BOOL)) as [ca|] eqn:E2; [|discriminate].
+      eapply simplify_bool1_wf; [|exact HE]. eapply cast_wf; [|exact E2]. eapply IHe; eauto.
+    + discriminate.
+    + discriminate.
+  - (* EBin *)
+    destruct (op_family c).
+    + destruct (elab_expr en e1) as [l'|] eqn:E1; [|discriminate].
+      destruct (elab_expr en e2) as [r'|] eqn:E2; [|discriminate].
+      destruct (coerce l' (TData INT)) as [cl|] eqn:E3; [|discriminate].
+      destruct (coerce r' (TData INT)) as [cr|] eqn:E4; [|discriminate].
+      eapply simplify_arith2_wf; [eapply coerce_wf; [eapply IHe1; exact E1 | exact E3] | eapply coerce_wf; [eapply IHe2; exact E2 | exact E4] | exact HE].
+    + discriminate.
+    + destruct (elab_expr en e1) as [l'|] eqn:E1; [|discriminate].
+      destruct (cast l' (TData BOOL)) as [cl|] eqn:E3; [|discriminate].
+      destruct (elab_expr en e2) as [r'|] eqn:E2; [|discriminate].
+      destruct (cast r' (TData BOOL)) as [cr|] eqn:E4; [|discriminate].
+      eapply simplify_bool2_wf; [eapply cast_wf; [eapply IHe1; exact E1 | exact E3] | eapply cast_wf; [eapply IHe2; exact E2 | exact E4] | exact HE].
+    + discriminate.
+    + destruct (elab_expr en e1) as [l'|] eqn:E1; [|discriminate].
+      destruct (coerce l' (TData INT)) as [cl|] eqn:E3; [|discriminate].
+      destruct (elab_expr en e2) as [r'|] eqn:E2; [|discriminate].
+      destruct (coerce r' (TData INT)) as [cr|] eqn:E4; [|discriminate].
+      eapply simplify_bool2_wf; [eapply coerce_wf; [eapply IHe1; exact E1 | exact E3] | eapply coerce_wf; [eapply IHe2; exact E2 | exact E4] | exact HE].
+    + destruct (elab_expr en e1) as [l'|] eqn:E1; [|discriminate].
+      destruct (elab_expr en e2) as [r'|] eqn:E2; [|discriminate].
+      destruct (ty_eqb (ty_of l') (TData BOOL) && ty_eqb (ty_of r') (TData BOOL)).
+      * eapply simplify_bool2_wf; [eapply IHe1; exact E1 | eapply IHe2; exact E2 | exact HE].
+      * destruct (coerce l' (TData INT)) as [cl|] eqn:E3; [|discriminate].
+        destruct (coerce r' (TData INT)) as [cr|] eqn:E4; [|discriminate].
+        eapply simplify_bool2_wf; [eapply coerce_wf; [eapply IHe1; exact E1 | exact E3] | eapply coerce_wf; [eapply IHe2; exact E2 | exact E4] | exact HE].
+  - (* EIs *)
+    destruct (elab_expr en e) as [a'|] eqn:E1; [|discriminate].
+    eapply cast_wf; [|exact HE]. eapply IHe; eauto.
+  - (* ESpec *)
+    destruct (elab_expr en e1) as [l'|] eqn:E1; [|discriminate].
+    destruct (negb (spec_type_ok (ty_of l'))); [discriminate|].
+    destruct (elab_expr en e2) as [r'|] eqn:E2; [|discriminate].
+    destruct (coerce r' (ty_of l')) as [cr|] eqn:E3; [|discriminate].
+    pose proof (IHe1 _ _ E1) as W1. pose proof (coerce_wf _ _ _ (IHe2 _ _ E2) E3) as W2.
+    destruct (is_primitive l' && is_primitive cr); inversion HE; subst; [exact W1|].
+    simpl. now rewrite W1, W2.
+  - (* EArrInit *)
+    destruct (elab_expr en e) as [len'|] eqn:E1; [|discriminate].
+    destruct (coerce len' (TData INT)) as [cl|] eqn:E2; [|discriminate].
+    inversion HE; subst. simpl. eapply coerce_wf; [|exact E2]. eapply IHe; eauto.
+Qed.
+
+(** *** every expression of the checked tree is well formed *)
+Definition stmt_exprs_wf (_ : option dty) (s : tstmt) : bool :=
+  match s with
+  | TSDecl _ i => wf i
+  | TSAssign l r => wf l && wf r
+  | TSIncAssign l r _ => wf l && wf r
+  | TSReturn (Some v) => wf v
+  | TSExpr e => wf e
+  | TSIf _ c _ => wf c
+  | TSLoop _ c _ => wf c
+  | _ => true
+  end.
+
+Lemma finish_decl_wf : forall en v i t en',
+  wf i = true -> finish_decl en v i = OK (t, en') -> exists i', t = TSDecl v i' /\ wf i' = true.
+Proof.
+  intros en v i t en' W H. unfold finish_decl in H.
+  destruct (coerce i (v_type v)) as [ci|] eqn:E; [|discriminate].
+  pose proof (coerce_wf _ _ _ W E) as Wc.
+  destruct ci; inversion H; subst; eauto.
+Qed.
+
+Lemma elab_assign_wf : forall en l r mk p,
+  elab_assign en l r mk = OK p -> wf (fst p) = true /\ wf (snd p) = true.
+Proof.
+  intros en l r mk p H. unfold elab_assign in H.
+  destruct (elab_expr en l) as [l'|] eqn:E1; [|discriminate].
+  destruct (negb (is_assignable l') || lookup_const l'); [discriminate|].
+  destruct (elab_expr en (mk r)) as [r'|] eqn:E2; [|discriminate].
+  destruct (coerce r' (ty_of l')) as [cr|] eqn:E3; [|discriminate].
+  inversion H; subst. simpl. split; [eapply elab_expr_wf; eauto|].
+  eapply coerce_wf; [|exact E3]. eapply elab_expr_wf; eauto.
+Qed.
+
+Lemma stmt_exprs_wf_local : local_prop stmt_exprs_wf.
+Proof.
+  intros en s t en' H. destruct s; simpl in H.
+  - inv_res H. eapply finish_decl_wf in H as [i' [-> W]]; [exact W | eapply elab_expr_wf; eauto].
+  - inv_res H. simpl. apply elab_assign_wf in E as [A B]. now rewrite A, B.
+  - inv_res H. simpl. apply elab_assign_wf in E as [A B]. rewrite A. simpl. eapply elab_expr_wf; eauto.
+  - destruct (e_ret en); [|discriminate]. destruct val; inv_res H; simpl; [|reflexivity].
+    eapply coerce_wf; [|exact E1]. eapply elab_expr_wf; eauto.
+  - inv_res H. reflexivity.
+  - inv_res H. reflexivity.
+  - inv_res H. simpl. eapply elab_expr_wf; eauto.
+  - inv_res H. reflexivity.
+  - inv_res H. simpl. eapply cast_wf; [|exact E1]. eapply elab_expr_wf; eauto.
+  - inv_res H. simpl. eapply cast_wf; [|exact E1]. eapply elab_expr_wf; eauto.
+  - inv_res H. reflexivity.
+  - inv_res H. reflexivity.
+Qed.
+
+Lemma elab_globals_all : forall P, local_prop P ->
+  forall ds en r, elab_globals en ds = OK r ->
+    e_ret (snd r) = e_ret en /\ forallb (stmt_all (P (e_ret en))) (fst r) = true.
+Proof.
+  intros P HL. induction ds as [|d ds IH]; intros en r H; simpl in H.
+  - inversion H; subst. split; reflexivity.
+  - destruct (elab_stmt en d) as [[t en1]|] eqn:E; [|discriminate]. simpl in H.
+    destruct (elab_globals en1 ds) as [rest|] eqn:E2; [|discriminate].
+    inversion H; subst. simpl.
+    pose proof (elab_stmt_env_ret _ _ _ _ E) as R1.
+    destruct (IH _ _ E2) as [R2 A]. rewrite R1 in *. split; [exact R2|].
+    rewrite (elab_stmt_all P HL _ _ _ _ E). exact A.
+Qed.
+
+(** "nested ... arrays" are rejected: in every accepted program every array literal (anywhere
+    in any expression) has an array type whose elements are scalar-typed expressions, the
+    elements of a type-locked literal have exactly its element type, and a Volatile only ever
+    wraps an array.  (The element type may still be `empty`: see empty_typed_array_refuted.) *)
+Theorem no_nested_arrays : forall u p tp,
+  elab_program u p = OK tp ->
+  funcs_all stmt_exprs_wf tp = true /\ forallb (stmt_all (stmt_exprs_wf None)) (tp_vars tp) = true.
+Proof.
+  intros u p tp H. split.
+  - eapply (elab_program_all stmt_exprs_wf stmt_exprs_wf_local); eauto.
+  - unfold elab_program in H.
+    destruct (add_funcs [] builtin_fsigs); [|discriminate].
+    destruct (add_funcs a (map sig_of (p_funcs p))); [|discriminate].
+    destruct (elab_globals _ (p_vars p)) as [g|] eqn:G; [|discriminate].
+    destruct (elab_funcs (snd g) (p_funcs p)) as [fs|]; [|discriminate].
+    inversion H; subst. simpl.
+    apply (elab_globals_all stmt_exprs_wf stmt_exprs_wf_local) in G. apply G.
+Qed.
+
+(** coercible implies castable, for every well-formed expression (the general form of
+    lattice_cast_defined) *)
+Lemma plain_coercible_castable : forall e a b,
+  coercible_plain a b = true -> is_ok (cast_plain e a b) = true.
+Proof.
+  intros e a b H. rewrite (cast_plain_ok_indep e (rep_plain a)). rewrite cast_table_plain.
+  rewrite lattice_plain in H.
+  assert (I : implb (doc_coercible_ty a b) (doc_cast_ty a b) = true).
+  { apply (forall_types2 (fun a b => implb (doc_coercible_ty a b) (doc_cast_ty a b))).
+    vm_compute. reflexivity. }
+  rewrite H in I. exact I.
+Qed.
+
+Lemma is_ok_true : forall {A} (r : result A), is_ok r = true -> exists a, r = OK a.
+Proof. intros A [a|e] H; [eauto | discriminate]. Qed.
+
+Lemma cast_same_scalar_ok : forall e d,
+  wf e = true -> ty_of e = TData d -> is_ok (cast e (TData d)) = true.
+Proof.
+  intros e d W T.
+  destruct e; simpl in T |- *;
+    try (unfold cast_plain; rewrite T, ty_eqb_refl; reflexivity).
+  - unfold cast_intvalue. inversion T. reflexivity.
+  - unfold cast_intvalue. inversion T. reflexivity.
+  - inversion T. subst. reflexivity.
+  - inversion T. subst. reflexivity.
+  - discriminate.
+Qed.
+
+Lemma map_result_ok : forall {A B} (f : A -> result B) l,
+  (forall x, In x l -> is_ok (f x) = true) -> is_ok (map_result f l) = true.
+Proof.
+  intros A B f. induction l as [|x l IH]; intros H; simpl; [reflexivity|].
+  destruct (f x) eqn:E.
+  - assert (is_ok (map_result f l) = true) as I by (apply IH; intros; apply H; simpl; auto).
+    destruct (map_result f l); [reflexivity | discriminate].
+  - specialize (H x (or_introl eq_refl)). rewrite E in H. discriminate.
+Qed.
+
+Theorem coercible_cast_ok : forall e new,
+  wf e = true -> coercible e new = true -> is_ok (cast e new) = true.
+Proof.
+  induction e using texpr_ind'; intros new W C;
+    try (rewrite cast_of_plain by reflexivity; rewrite coercible_of_plain in C by reflexivity;
+         now apply plain_coercible_castable).
+  - (* TInt *) simpl in *. unfold cast_intvalue.
+    destruct (ty_eqb new (TData BOOL)); [reflexivity|]. destruct (ty_eqb new (TData BYTE)) eqn:B; [reflexivity|].
+    destruct (ty_eqb new (TData INT)); [reflexivity|].
+    rewrite andb_false_r, orb_false_r in C. now apply plain_coercible_castable.
+  - (* TByte *) simpl in *. unfold cast_intvalue.
+    destruct (ty_eqb new (TData BOOL)); [reflexivity|]. destruct (ty_eqb new (TData BYTE)) eqn:B; [reflexivity|].
+    destruct (ty_eqb new (TData INT)); [reflexivity|].
+    rewrite andb_false_r, orb_false_r in C. now apply plain_coercible_castable.
+  - (* TBool *) simpl in *.
+    destruct (ty_eqb new (TData INT)); [reflexivity|]. destruct (ty_eqb new (TData BYTE)); [reflexivity|].
+    now apply plain_coercible_castable.
+  - (* TStr *) simpl in *.
+    destruct (ty_eqb new (TData BOOL)); [reflexivity|]. now apply plain_coercible_castable.
+  - (* TArrLit *) simpl in C. destruct new as [d|el' k']; [discriminate|]. simpl.
+    simpl in W. apply andb_prop in W as [WA W]. rewrite forallb_forall in W.
+    assert (I : is_ok (map_result (fun v => cast v (TData el')) vs) = true).
+    { apply map_result_ok. intros x Hx. specialize (W x Hx).
+      apply andb_prop in W as [W1 WL]. apply andb_prop in W1 as [Wx Sx].
+      rewrite Forall_forall in H. destruct k.
+      - simpl in WL. apply ty_eqb_eq in WL. apply dty_beq_eq in C. subst el'.
+        now apply cast_same_scalar_ok.
+      - rewrite forallb_forall in C. apply H; auto. }
+    destruct (map_result (fun v => cast v (TData el')) vs); [reflexivity | discriminate].
+  - (* TVolatile *) simpl in *. apply andb_prop in W as [W _]. now apply IHe.
+  - (* TUn *) simpl in C |- *. destruct (is_arith c) eqn:A; simpl in C.
+    + destruct (ty_eqb new (TData BYTE)) eqn:B.
+      * apply ty_eqb_eq in B. subst. reflexivity.
+      * rewrite andb_false_r, orb_false_r in C. now apply plain_coercible_castable.
+    + rewrite orb_false_r in C. now apply plain_coercible_castable.
+  - (* TBin *) simpl in C |- *. destruct (is_arith c) eqn:A; simpl in C.
+    + destruct (ty_eqb new (TData BYTE)) eqn:B.
+      * apply ty_eqb_eq in B. subst. reflexivity.
+      * rewrite andb_false_r, orb_false_r in C. now apply plain_coercible_castable.
+    + rewrite orb_false_r in C. now apply plain_coercible_castable.
+Qed.
+
+(* ========================================================================================== *)
+(** * The documented typing rules, written independently of the elaborator (SPECIFICATION)
+
+    `wt_program` decides "the program follows the documented typing rules" (README "Types",
+    "Arrays and strings", "Operators", property C07) on an abstract domain: no tree is built, no
+    constant is evaluated.  It is the right-hand side of C07_full_statement.  It deliberately
+    says nothing about control flow (missing return *statements*, unreachable code: C16). *)
+
+Inductive aexp : Type :=
+| AX (t : ty) (shr : bool)                        (* an expression of type t; shr: an int that is
+                                                     still coercible to byte *)
+| ALit (els : list aexp) (t : ty) (locked : bool) (* an array literal *)
+| AVol (el : dty).                                (* `x is T[]` for a mutable array x *)
+
+Definition a_type (a : aexp) : ty :=
+  match a with AX t _ => t | ALit _ t _ => t | AVol el => TArr el true end.
+
+Fixpoint a_coercible (a : aexp) (new : ty) : bool :=
+  match a with
+  | AX t shr => doc_coercible_ty t new || (shr && ty_eqb new (TData BYTE))
+  | ALit els t locked =>
+      match new with
+      | TArr el' _ => if locked then dty_beq (el_of t) el'
+                      else forallb (fun x => a_coercible x (TData el')) els
+      | _ => false
+      end
+  | AVol el => match new with TArr el' _ => dty_beq el el' | _ => false end
+  end.
+
+Fixpoint a_castable (a : aexp) (new : ty) : bool :=
+  match a with
+  | AX t _ => doc_cast_ty t new
+  | ALit els t _ =>
+      match new with
+      | TArr el' _ => forallb (fun x => a_castable x (TData el')) els
+      | TData BOOL => true
+      | _ => false
+      end
+  | AVol el => doc_cast_ty (TArr el false) new
+  end.
+
+(** the result of an explicit cast / of a successful coercion *)
+Definition a_cast_result (a : aexp) (new : ty) : aexp :=
+  match a, new with
+  | ALit els _ _, TArr el' _ => ALit (map (fun _ => AX (TData el') false) els) new true
+  | AX (TArr el false) _, TArr _ true => AVol el
+  | AVol el, TArr _ false => AX (TArr el false) false
+  | AVol el, TArr _ true => AVol el
+  | AX (TData INT) shr, TData BYTE => AX new false
+  | _, _ => AX new false
+  end.
+
+Record senv : Type := mkSenv {
+  s_scopes : list (list (string * (ty * bool)));
+  s_funcs : list fsig;
+  s_ret : option dty }.
+
+Fixpoint s_find1 (x : string) (s : list (string * (ty * bool))) : option (ty * bool) :=
+  match s with
+  | [] => None
+  | (y, v) :: tl => if String.eqb x y then Some v else s_find1 x tl
+  end.
+
+Fixpoint s_find (x : string) (ss : list (list (string * (ty * bool)))) : option (ty * bool) :=
+  match ss with
+  | [] => None
+  | s :: tl => match s_find1 x s with Some v => Some v | None => s_find x tl end
+  end.
+
+Fixpoint s_found_local (x : string) (ss : list (list (string * (ty * bool)))) : bool :=
+  match ss with
+  | [] | [_] => false
+  | s :: tl => match s_find1 x s with Some _ => true | None => s_found_local x tl end
+  end.
+
+Definition s_push (e : senv) : senv := mkSenv ([] :: s_scopes e) (s_funcs e) (s_ret e).
+Definition s_add (e : senv) (x : string) (t : ty) (c : bool) : senv :=
+  match s_scopes e with
+  | [] => mkSenv [[(x, (t, c))]] (s_funcs e) (s_ret e)
+  | s :: tl => mkSenv (((x, (t, c)) :: s) :: tl) (s_funcs e) (s_ret e)
+  end.
+
+Fixpoint a_all_coercible (args : list aexp) (ps : list ty) : bool :=
+  match args, ps with
+  | [], [] => true
+  | a :: args', p :: ps' => a_coercible a p && a_all_coercible args' ps'
+  | _, _ => false
+  end.
+
+(** "bound to the overload with exactly matching parameter types if there is one, otherwise to
+    the first declared overload every argument can be coerced to" *)
+Definition s_resolve (decls : list fsig) (f : ident) (args : list aexp) : option fsig :=
+  match find (exact_sig f (map a_type args)) decls with
+  | Some s => Some s
+  | None => find (fun s => ident_eqb f (f_id s) && a_all_coercible args (f_params s)) decls
+  end.
+
+Definition is_scalar_a (a : aexp) : bool := match a with AX (TData _) _ => true | _ => false end.
+
+Fixpoint pick_elem_type (els : list aexp) (cands : list aexp) : option dty :=
+  match cands with
+  | [] => None
+  | c :: tl =>
+      match a_type c with
+      | TData d => if forallb (fun x => a_coercible x (TData d)) els then Some d
+                   else pick_elem_type els tl
+      | _ => None
+      end
+  end.
+
+Definition opt_bind {A B} (o : option A) (f : A -> option B) : option B :=
+  match o with Some a => f a | None => None end.
+
+Definition opt_map_all {A B} (f : A -> option B) : list A -> option (list B) :=
+  fix go (l : list A) : option (list B) :=
+    match l with
+    | [] => Some []
+    | x :: tl => opt_bind (f x) (fun x' => opt_bind (go tl) (fun tl' => Some (x' :: tl')))
+    end.
+
+Fixpoint wt_expr (e : senv) (x : expr) {struct x} : option aexp :=
+  match x with
+  | EInt _ => Some (AX (TData INT) true)          (* "Type: int, but coercible to byte" *)
+  | EChar _ => Some (AX (TData BYTE) false)
+  | EBool _ => Some (AX (TData BOOL) false)
+  | EStr _ => Some (AX (TData STRING) false)
+  | EVar n => opt_bind (s_find n (s_scopes e)) (fun v => Some (AX (fst v) false))
+  | EArr es =>
+      match es with
+      | [] => Some (ALit [] (TArr EMPTY true) false)
+      | _ =>
+          opt_bind (opt_map_all (wt_expr e) es) (fun els =>
+          if negb (forallb is_scalar_a els) then None                 (* nested arrays *)
+          else opt_bind (pick_elem_type els els) (fun d =>
+               if dty_beq d EMPTY then None                            (* empty-typed arrays *)
+               else Some (ALit els (TArr d true) false)))
+      end
+  | EIndex s i =>
+      opt_bind (wt_expr e s) (fun sa =>
+      opt_bind (wt_expr e i) (fun ia =>
+      if negb (a_coercible ia (TData INT)) then None else
+      match a_type sa with
+      | TData STRING => Some (AX (TData BYTE) false)
+      | TArr el _ => if dty_beq el EMPTY then None else Some (AX (TData el) false)
+      | _ => None
+      end))
+  | ELen s =>
+      opt_bind (wt_expr e s) (fun sa =>
+      if is_str_or_arr (a_type sa) then Some (AX (TData INT) false) else None)
+  | ECall f args =>
+      opt_bind (opt_map_all (wt_expr e) args) (fun args' =>
+      opt_bind (s_resolve (s_funcs e) f args') (fun sg => Some (AX (TData (f_ret sg)) false)))
+  | EUn c a =>
+      opt_bind (wt_expr e a) (fun aa =>
+      match op_family c with
+      | FamUnArith => if a_coercible aa (TData INT)
+                      then Some (AX (TData INT) (a_coercible aa (TData BYTE))) else None
+      | FamUnLogic => if a_castable aa (TData BOOL) then Some (AX (TData BOOL) false) else None
+      | _ => None
+      end)
+  | EBin c l r =>
+      opt_bind (wt_expr e l) (fun la =>
+      opt_bind (wt_expr e r) (fun ra =>
+      match op_family c with
+      | FamBinArith =>
+          if a_coercible la (TData INT) && a_coercible ra (TData INT)
+          then Some (AX (TData INT) (a_coercible la (TData BYTE) && a_coercible ra (TData BYTE)))
+          else None
+      | FamCompare =>
+          if a_coercible la (TData INT) && a_coercible ra (TData INT)
+          then Some (AX (TData BOOL) false) else None
+      | FamEquality =>
+          if (ty_eqb (a_type la) (TData BOOL) && ty_eqb (a_type ra) (TData BOOL))
+             || (a_coercible la (TData INT) && a_coercible ra (TData INT))
+          then Some (AX (TData BOOL) false) else None
+      | FamBinLogic =>
+          if a_castable la (TData BOOL) && a_castable ra (TData BOOL)
+          then Some (AX (TData BOOL) false) else None
+      | _ => None
+      end))
+  | EIs a t =>
+      match a, t with
+      | EArr ((_ :: _) as es), TArr el' _ =>
+          (* "(array literal) is T[] - valid if all entries in the array literal can be cast
+             to T" -- no common element type is required *)
+          opt_bind (opt_map_all (wt_expr e) es) (fun els =>
+          if forallb is_scalar_a els && forallb (fun x => a_castable x (TData el')) els
+             && negb (dty_beq el' EMPTY)
+          then Some (ALit (map (fun _ => AX (TData el') false) els) t true) else None)
+      | _, _ =>
+          opt_bind (wt_expr e a) (fun aa =>
+          if a_castable aa t then Some (a_cast_result aa t) else None)
+      end
+  | ESpec l r =>
+      opt_bind (wt_expr e l) (fun la =>
+      opt_bind (wt_expr e r) (fun ra =>
+      if spec_type_ok (a_type la) && a_coercible ra (a_type la)
+      then Some (AX (a_type la) false) else None))
+  | EArrInit t len =>
+      opt_bind (wt_expr e len) (fun la =>
+      if a_coercible la (TData INT) then Some (AX t false) else None)
+  end.
+
+(** a declaration `T x = init`: init coercible to T; a const array variable may not be bound to
+    a mutable array (only to a literal or another const array) *)
+Definition wt_init (v : var) (a : aexp) : bool :=
+  a_coercible a (v_type v) &&
+  match v_type v, a with
+  | TArr _ true, AX (TArr _ false) _ => false
+  | TArr _ true, AVol _ => false
+  | _, _ => true
+  end.
+
+Definition s_redeclared (e : senv) (x : string) : bool :=
+  match s_find x (s_scopes e) with
+  | Some _ => (List.length (s_scopes e) <=? 1)%nat || s_found_local x (s_scopes e)
+  | None => false
+  end.
+
+(** assignment target: a non-const scalar variable or an element of a mutable array *)
+Definition wt_target (e : senv) (lhs : expr) : option ty :=
+  match lhs with
+  | EVar n =>
+      opt_bind (s_find n (s_scopes e)) (fun v => if snd v then None else Some (fst v))
+  | EIndex s i =>
+      opt_bind (wt_expr e s) (fun sa =>
+      opt_bind (wt_expr e i) (fun ia =>
+      if negb (a_coercible ia (TData INT)) then None else
+      match sa with
+      | AX (TArr el false) _ => Some (TData el)
+      | _ => None                      (* const arrays, literals, const views and STRINGS *)
+      end))
+  | _ => None
+  end.
+
+Definition wt_block (wt : senv -> stmt -> option senv) : list stmt -> senv -> bool :=
+  fix go (ss : list stmt) (e : senv) : bool :=
+    match ss with
+    | [] => true
+    | s :: tl => match wt e s with Some e' => go tl e' | None => false end
+    end.
+
+Fixpoint wt_stmt (e : senv) (s : stmt) {struct s} : option senv :=
+  let ok (b : bool) := if b then Some e else None in
+  match s with
+  | SDecl v init =>
+      if s_redeclared e (v_name v) then None else
+      opt_bind (wt_expr e init) (fun a =>
+      if wt_init v a then Some (s_add e (v_name v) (v_type v) (v_const v)) else None)
+  | SAssign lhs rhs =>
+      opt_bind (wt_target e lhs) (fun t =>
+      opt_bind (wt_expr e rhs) (fun a => ok (a_coercible a t)))
+  | SIncAssign lhs c rhs =>
+      opt_bind (wt_target e lhs) (fun t =>
+      opt_bind (wt_expr e (EBin c lhs rhs)) (fun a => ok (a_coercible a t)))
+  | SReturn val =>
+      match s_ret e, val with
+      | Some rt, Some v =>
+          if dty_beq rt EMPTY then None
+          else opt_bind (wt_expr e v) (fun a => ok (a_coercible a (TData rt)))
+      | Some rt, None => ok (dty_beq rt EMPTY)
+      | None, _ => None
+      end
+  | SBreak | SContinue => Some e
+  | SExpr x => opt_bind (wt_expr e x) (fun _ => Some e)
+  | SBlock ss => ok (wt_block wt_stmt ss (s_push e))
+  | SIf c b els =>
+      opt_bind (wt_expr e c) (fun a =>
+      if a_castable a (TData BOOL)
+      then opt_bind (wt_stmt e b) (fun _ => opt_bind (wt_stmt e els) (fun _ => Some e)) else None)
+  | SLoop b c k =>
+      opt_bind (wt_expr e c) (fun a =>
+      if a_castable a (TData BOOL)
+      then opt_bind (wt_stmt e b) (fun _ => opt_bind (wt_stmt e k) (fun _ => Some e)) else None)
+  | STry b _ h => opt_bind (wt_stmt e b) (fun _ => opt_bind (wt_stmt e h) (fun _ => Some e))
+  | SPreempt b => opt_bind (wt_stmt e b) (fun _ => Some e)
+  end.
+
+Fixpoint no_dup_sigs (seen : list fsig) (fs : list fsig) : bool :=
+  match fs with
+  | [] => true
+  | f :: tl => negb (existsb (exact_sig (f_id f) (f_params f)) seen) && no_dup_sigs (seen ++ [f]) tl
+  end.
+
+Fixpoint wt_params (e : senv) (ps : list var) : option senv :=
+  match ps with
+  | [] => Some e
+  | p :: tl => if s_redeclared e (v_name p) then None
+               else wt_params (s_add e (v_name p) (v_type p) (v_const p)) tl
+  end.
+
+Definition wt_func (e : senv) (f : fdecl) : bool :=
+  match wt_params (mkSenv ([] :: s_scopes e) (s_funcs e) (Some (fd_ret f))) (fd_params f) with
+  | Some e1 => wt_block wt_stmt (fd_body f) (s_push e1)
+  | None => false
+  end.
+
+Fixpoint wt_globals (e : senv) (ds : list stmt) : option senv :=
+  match ds with
+  | [] => Some e
+  | d :: tl => opt_bind (wt_stmt e d) (fun e' => wt_globals e' tl)
+  end.
+
+Definition wt_program (p : program) : bool :=
+  let sigs := builtin_fsigs ++ map sig_of (p_funcs p) in
+  no_dup_sigs [] sigs &&
+  match wt_globals (mkSenv [[]] sigs None) (p_vars p) with
+  | Some e => forallb (wt_func e) (p_funcs p)
+  | None => false
+  end.
+
+(** C07, in full: the typechecker accepts exactly the programs that follow the documented
+    rules, and binds every call as documented (overload_spec_stmt).  Control-flow rejections
+    (missing return statement, unreachable statement with the option on) belong to C16 and are
+    excluded by hypothesis. *)
+Definition control_flow_error (e : err) : bool :=
+  match e with EMissingReturnStatement | EUnreachable => true | _ => false end.
+
+Definition C07_full_statement : Prop :=
+  (forall u p,
+     match elab_program u p with
+     | OK _ => wt_program p = true
+     | Err e => control_flow_error e = true \/ wt_program p = false
+     end) /\
+  overload_spec_stmt.
+
+(** It does not hold of the code as it is: F7 (string element assignment) is accepted. *)
+Theorem C07_full_statement_refuted : ~ C07_full_statement.
+Proof.
+  intros [H _]. specialize (H false f7_witness).
+  assert (E : exists tp, elab_program false f7_witness = OK tp) by (eexists; vm_compute; reflexivity).
+  destruct E as [tp E]. rewrite E in H. vm_compute in H. discriminate.
+Qed.
+
+
+(* ========================================================================================== *)
+(** * C07_partial: the proved part of C07 *)
+
+Definition C07_partial_stmt : Prop :=
+  (* (1) the coercion lattice *)
+  ((forall a b, coercible_plain a b = doc_coercible_ty a b) /\
+   (forall e t, is_plain e = true -> coercible e t = coercible_plain (ty_of e) t) /\
+   (forall c t, coercible (rep c) t = doc_coercible c t) /\
+   (forall c, coercible (rep c) (ty_of (rep c)) = true) /\
+   (forall c t, coercible (rep c) t = true -> exists e', cast (rep c) t = OK e') /\
+   (forall e new, wf e = true -> coercible e new = true -> is_ok (cast e new) = true) /\
+   (forall c a b, ty_of (rep c) = TData a -> coercible (rep c) (TData b) = true ->
+                  a = b \/ (a = BYTE /\ b = INT) \/ (c = CIntLit true /\ b = BYTE)) /\
+   (forall c a el k, ty_of (rep c) = TData a -> coercible (rep c) (TArr el k) = true ->
+                     a = STRING /\ el = BYTE /\ k = true) /\
+   (forall x y, coercible_plain (TArr x true) (TArr y false) = false) /\
+   (forall x y k, coercible_plain (TArr x false) (TArr y k) = dty_beq x y) /\
+   (forall b, coercible_plain (TData EMPTY) b = true -> b = TData EMPTY) /\
+   (forall c, coercible (rep c) (TData EMPTY) = true -> c = CPlain (TData EMPTY)) /\
+   (forall e b, is_plain e = true -> is_ok (cast e b) = doc_cast_ty (ty_of e) b)) /\
+  (* (2) overload resolution *)
+  overload_spec_stmt /\
+  (* (3) soundness of the rejections, on the checked tree of every accepted program *)
+  ((forall u p tp, elab_program u p = OK tp ->
+      funcs_all assign_ok tp = true /\ funcs_all return_ok tp = true /\
+      funcs_all stmt_exprs_wf tp = true /\
+      forallb (stmt_all (stmt_exprs_wf None)) (tp_vars tp) = true) /\
+   (forall l, target_ok l = true ->
+      (exists v, l = TVar v /\ v_const v = false) \/
+      (exists src i el, l = TIndex src i /\ ty_of src = TArr el false) \/
+      (exists src i, l = TIndex src i /\ ty_of src = TData STRING)) /\
+   (forall e, ty_of e = TData INT -> coercible e (TData BYTE) = true -> shrinkable_node e = true) /\
+   (forall e el, denotes_const_array e = true -> coercible e (TArr el false) = false) /\
+   (forall e new e', coerce e new = OK e' -> ty_of e' = new)) /\
+  (* (4) arithmetic shrinkability *)
+  ((forall en c l r te, op_family c = FamBinArith -> elab_expr en (EBin c l r) = OK te ->
+      exists l' r', elab_expr en l = OK l' /\ elab_expr en r = OK r' /\
+        coercible te (TData BYTE) = coercible l' (TData BYTE) && coercible r' (TData BYTE)) /\
+   (forall en c a te, op_family c = FamUnArith -> elab_expr en (EUn c a) = OK te ->
+      exists a', elab_expr en a = OK a' /\ coercible te (TData BYTE) = coercible a' (TData BYTE))).
+
+Theorem C07_partial : C07_partial_stmt.
+Proof.
+  split; [|split; [|split]].
+  - repeat split.
+    + exact lattice_plain.
+    + exact coercible_of_plain.
+    + exact lattice_table.
+    + exact lattice_reflexive.
+    + exact lattice_cast_defined.
+    + exact coercible_cast_ok.
+    + exact only_scalar_coercions.
+    + eapply scalar_to_array_only_string; eauto.
+    + eapply scalar_to_array_only_string; eauto.
+    + eapply scalar_to_array_only_string; eauto.
+    + exact never_const_to_mutable.
+    + exact mutable_to_const_same_element.
+    + exact never_from_empty.
+    + exact never_to_empty.
+    + exact is_table_plain.
+  - exact overload_spec.
+  - split; [|split; [|split; [|split]]].
+    + intros u p tp H. split; [eapply no_assign_to_const; eauto|].
+      split; [eapply returns_match; eauto|]. apply (no_nested_arrays u p tp H).
+    + exact target_ok_shape.
+    + exact no_implicit_narrowing.
+    + exact const_array_not_to_mutable.
+    + exact coerce_type.
+  - split; [exact arith_shrinkable | exact arith_shrinkable_unary].
+Qed.
+
+(* ------------------------------------------------------------------------------------------ *)
+(** * The hypotheses of the implications above are satisfiable *)
+
+Definition ex_decls : list fsig :=
+  [mkSig (mkId "f" FL_NONE) [TData INT] INT; mkSig (mkId "f" FL_NONE) [TData BYTE] BYTE;
+   mkSig (mkId "f" FL_NONE) [TArr INT true] BOOL].
+
+(** an exact match beats an earlier coercible overload; a literal falls to the first coercible *)
+Lemma resolve_examples :
+  resolve ex_decls (mkId "f" FL_NONE) [rep_plain (TData BYTE)]
+    = OK (mkSig (mkId "f" FL_NONE) [TData BYTE] BYTE) /\
+  resolve ex_decls (mkId "f" FL_NONE) [TArrLit [TByte 97 true true] (TArr BYTE true) false]
+    = OK (mkSig (mkId "f" FL_NONE) [TArr INT true] BOOL) /\
+  resolve ex_decls (mkId "f" FL_NONE) [rep_plain (TData STRING)]
+    = Err (ENoMatchingFunction (mkId "f" FL_NONE) [TData STRING]).
+Proof. repeat split; vm_compute; reflexivity. Qed.
+
+Definition ex_program : program :=
+  mkProgram [SDecl (mkVar "g" (TData INT) false) (EInt 3)]
+    [mkFdecl INT (mkId "f" FL_NONE) [mkVar "b" (TData BYTE) false; mkVar "a" (TArr INT false) true]
+       [SDecl (mkVar "y" (TData BYTE) false) (EBin OAdd (EBin OMul (EVar "b") (EInt 3)) (EInt 4));
+        SAssign (EIndex (EVar "a") (EInt 0)) (EVar "y");
+        SExpr (ECall (mkId "write" FL_NONE) [EArr [EVar "y"; EInt 1]]);
+        SReturn (Some (EBin OAdd (EVar "g") (EVar "y")))]].
+
+Lemma elab_accepts_example : exists tp, elab_program false ex_program = OK tp.
+Proof. eexists. vm_compute. reflexivity. Qed.
+
+Lemma wt_accepts_example : wt_program ex_program = true.
+Proof. vm_compute. reflexivity. Qed.
+
+Lemma arith_hyps_example : exists te,
+  op_family OAdd = FamBinArith /\
+  elab_expr (mkEnv [[("b", mkDecl (mkVar "b" (TData BYTE) false) (TParam (mkVar "b" (TData BYTE) false)))]; []] [] None false)
+            (EBin OAdd (EVar "b") (EInt 1)) = OK te /\ coercible te (TData BYTE) = true.
+Proof. eexists. repeat split; vm_compute; reflexivity. Qed.
+
+Lemma narrowing_hyps_example :
+  ty_of (TInt 5 true false) = TData INT /\ coercible (TInt 5 true false) (TData BYTE) = true /\
+  ty_of (rep_plain (TData INT)) = TData INT /\ coercible (rep_plain (TData INT)) (TData BYTE) = false.
+Proof. repeat split; vm_compute; reflexivity. Qed.
+
+Lemma const_array_hyps_example :
+  denotes_const_array (rep_plain (TArr INT true)) = true /\
+  denotes_const_array (TVolatile (rep_plain (TArr INT false))) = false /\
+  coercible (TVolatile (rep_plain (TArr INT false))) (TArr INT false) = true.
+Proof. repeat split; vm_compute; reflexivity. Qed.
+
+(** "Numeric literals: Type int, but coercible to byte.  Byte literals: Type byte";  a const
+    scalar substituted for its value is no longer a shrinkable literal *)
+Theorem literal_rules : forall en n,
+  (exists te, elab_expr en (EInt n) = OK te /\ ty_of te = TData INT /\ coercible te (TData BYTE) = true) /\
+  (exists te, elab_expr en (EChar n) = OK te /\ ty_of te = TData BYTE /\ coercible te (TData INT) = true) /\
+  (forall d s c, coercible (at_subst (TInt d s c)) (TData BYTE) = false).
+Proof.
+  intros en n. split; [|split].
+  - eexists. split; [reflexivity|]. split; reflexivity.
+  - eexists. split; [reflexivity|]. split; reflexivity.
+  - intros. reflexivity.
+Qed.
